@@ -35,7 +35,7 @@ func verifAssume(cond bool) {}
 //@   requires [C11] @wf wfResponse(cmd)
 //@   modifies nothing
 
-//@ func (*Envelope).Sender
+//@ func (*Envelope).Sender :: (env) (result)
 //@   props C11
 //@   requires env != nil
 //@   ensures  env.PP != Node{} ==> result == env.PP
@@ -43,7 +43,7 @@ func verifAssume(cond bool) {}
 //@   ensures  result == senderOf(*env)
 //@   modifies nothing
 
-//@ func (*RequestCommand).SuccessResponse
+//@ func (*RequestCommand).SuccessResponse :: (cmd) (result)
 //@   props C11
 //@   requires cmd != nil
 //@   ensures  result != nil && fresh(result)
@@ -55,7 +55,7 @@ func verifAssume(cond bool) {}
 //@   ensures  validMethod(cmd.Method) ==> wfResponse(result)
 //@   modifies nothing
 
-//@ func (*RequestCommand).SuccessResponseWithResource
+//@ func (*RequestCommand).SuccessResponseWithResource :: (cmd, resource) (result)
 //@   props C11
 //@   requires cmd != nil
 //@   ensures  result != nil && fresh(result)
@@ -69,7 +69,7 @@ func verifAssume(cond bool) {}
 //@   ensures  @wf validMethod(cmd.Method) ==> wfResponse(result)
 //@   modifies nothing
 
-//@ func (*RequestCommand).FailureResponse
+//@ func (*RequestCommand).FailureResponse :: (cmd, reason) (result)
 //@   props C11
 //@   requires cmd != nil
 //@   ensures  result != nil && fresh(result)
@@ -81,14 +81,14 @@ func verifAssume(cond bool) {}
 //@   ensures  validMethod(cmd.Method) ==> wfResponse(result)
 //@   modifies nothing
 
-//@ func (*Command).SetResource
+//@ func (*Command).SetResource :: (cmd, d) (result)
 //@   props C11
 //@   requires cmd != nil && d != nil
 //@   ensures  result == cmd
 //@   ensures  cmd.Resource == d && cmd.Type != nil && *cmd.Type == mediaTypeOf(d)
 //@   modifies cmd.Resource, cmd.Type
 
-//@ func (*Message).Notification
+//@ func (*Message).Notification :: (msg, event) (result)
 //@   props C11
 //@   requires msg != nil
 //@   ensures  result != nil && fresh(result)
@@ -98,7 +98,7 @@ func verifAssume(cond bool) {}
 //@   ensures  validEvent(event) ==> wfNotification(result)
 //@   modifies nothing
 
-//@ func (*Message).FailedNotification
+//@ func (*Message).FailedNotification :: (msg, reason) (result)
 //@   props C11
 //@   requires msg != nil
 //@   ensures  result != nil && fresh(result)
@@ -108,7 +108,7 @@ func verifAssume(cond bool) {}
 //@   ensures  wfNotification(result)
 //@   modifies nothing
 
-//@ func (*URI).Path
+//@ func (*URI).Path :: (u) (result)
 //@   props C11
 //@   requires u != nil
 //@   modifies nothing
@@ -174,7 +174,7 @@ func verifAssume(cond bool) {}
 //@   ensures msg.lastSender == s
 //@   note handlers do not mutate the mux or the channel structures
 
-//@ func (*EnvelopeMux).handleMessage
+//@ func (*EnvelopeMux).handleMessage :: (m, ctx, msg, s) (result)
 //@   props C20
 //@   requires m != nil && msg != nil
 //@   requires nonNilMsg(m.msgHandlers, 0)  ## representation invariant of the mux: no nil handler is registered
@@ -197,20 +197,20 @@ func verifAssume(cond bool) {}
 //@   ensures msg.nFuncCalls == old(msg.nFuncCalls) + 1 && msg.lastFuncCtx == ctx && msg.lastFuncErr == err
 //@   ensures msg.lastFuncSender == s
 
-//@ func (*messageHandler).Match
+//@ func (*messageHandler).Match :: (h, msg) (result)
 //@   props C20
 //@   requires h != nil
 //@   ensures h.predicate == nil ==> result == true
 //@   modifies nothing
 
-//@ func (*messageHandler).Handle
+//@ func (*messageHandler).Handle :: (h, ctx, msg, s) (result)
 //@   props C20
 //@   requires h != nil && h.handlerFunc != nil && msg != nil
 //@   modifies msg.nFuncCalls, msg.lastFuncCtx, msg.lastFuncSender, msg.lastFuncErr
 //@   ensures msg.nFuncCalls == old(msg.nFuncCalls) + 1 && msg.lastFuncCtx == ctx && msg.lastFuncErr == result
 //@   ensures msg.lastFuncSender == s
 
-//@ func (*EnvelopeMux).MessageHandler
+//@ func (*EnvelopeMux).MessageHandler :: (m, handler) ()
 //@   props C20
 //@   requires m != nil && handler != nil
 //@   modifies m.msgHandlers
@@ -245,7 +245,7 @@ func verifAssume(cond bool) {}
 
 //@   note handlers do not mutate the mux or the channel structures
 
-//@ func (*EnvelopeMux).handleNotification
+//@ func (*EnvelopeMux).handleNotification :: (m, ctx, not) (result)
 //@   props C20
 //@   requires m != nil && not != nil
 //@   requires nonNilNot(m.notHandlers, 0)  ## representation invariant of the mux: no nil handler is registered
@@ -268,20 +268,20 @@ func verifAssume(cond bool) {}
 //@   ensures not.nFuncCalls == old(not.nFuncCalls) + 1 && not.lastFuncCtx == ctx && not.lastFuncErr == err
 
 
-//@ func (*notificationHandler).Match
+//@ func (*notificationHandler).Match :: (h, not) (result)
 //@   props C20
 //@   requires h != nil
 //@   ensures h.predicate == nil ==> result == true
 //@   modifies nothing
 
-//@ func (*notificationHandler).Handle
+//@ func (*notificationHandler).Handle :: (h, ctx, not) (result)
 //@   props C20
 //@   requires h != nil && h.handlerFunc != nil && not != nil
 //@   modifies not.nFuncCalls, not.lastFuncCtx, not.lastFuncSender, not.lastFuncErr
 //@   ensures not.nFuncCalls == old(not.nFuncCalls) + 1 && not.lastFuncCtx == ctx && not.lastFuncErr == result
 
 
-//@ func (*EnvelopeMux).NotificationHandler
+//@ func (*EnvelopeMux).NotificationHandler :: (m, handler) ()
 //@   props C20
 //@   requires m != nil && handler != nil
 //@   modifies m.notHandlers
@@ -316,7 +316,7 @@ func verifAssume(cond bool) {}
 //@   ensures cmd.lastSender == s
 //@   note handlers do not mutate the mux or the channel structures
 
-//@ func (*EnvelopeMux).handleRequestCommand
+//@ func (*EnvelopeMux).handleRequestCommand :: (m, ctx, cmd, s) (result)
 //@   props C20
 //@   requires m != nil && cmd != nil
 //@   requires nonNilReqCmd(m.reqCmdHandlers, 0)  ## representation invariant of the mux: no nil handler is registered
@@ -339,20 +339,20 @@ func verifAssume(cond bool) {}
 //@   ensures cmd.nFuncCalls == old(cmd.nFuncCalls) + 1 && cmd.lastFuncCtx == ctx && cmd.lastFuncErr == err
 //@   ensures cmd.lastFuncSender == s
 
-//@ func (*requestCommandHandler).Match
+//@ func (*requestCommandHandler).Match :: (h, cmd) (result)
 //@   props C20
 //@   requires h != nil
 //@   ensures h.predicate == nil ==> result == true
 //@   modifies nothing
 
-//@ func (*requestCommandHandler).Handle
+//@ func (*requestCommandHandler).Handle :: (h, ctx, cmd, s) (result)
 //@   props C20
 //@   requires h != nil && h.handlerFunc != nil && cmd != nil
 //@   modifies cmd.nFuncCalls, cmd.lastFuncCtx, cmd.lastFuncSender, cmd.lastFuncErr
 //@   ensures cmd.nFuncCalls == old(cmd.nFuncCalls) + 1 && cmd.lastFuncCtx == ctx && cmd.lastFuncErr == result
 //@   ensures cmd.lastFuncSender == s
 
-//@ func (*EnvelopeMux).RequestCommandHandler
+//@ func (*EnvelopeMux).RequestCommandHandler :: (m, handler) ()
 //@   props C20
 //@   requires m != nil && handler != nil
 //@   modifies m.reqCmdHandlers
@@ -387,7 +387,7 @@ func verifAssume(cond bool) {}
 //@   ensures cmd.lastSender == s
 //@   note handlers do not mutate the mux or the channel structures
 
-//@ func (*EnvelopeMux).handleResponseCommand
+//@ func (*EnvelopeMux).handleResponseCommand :: (m, ctx, cmd, s) (result)
 //@   props C20
 //@   requires m != nil && cmd != nil
 //@   requires nonNilRespCmd(m.respCmdHandlers, 0)  ## representation invariant of the mux: no nil handler is registered
@@ -410,20 +410,20 @@ func verifAssume(cond bool) {}
 //@   ensures cmd.nFuncCalls == old(cmd.nFuncCalls) + 1 && cmd.lastFuncCtx == ctx && cmd.lastFuncErr == err
 //@   ensures cmd.lastFuncSender == s
 
-//@ func (*responseCommandHandler).Match
+//@ func (*responseCommandHandler).Match :: (h, cmd) (result)
 //@   props C20
 //@   requires h != nil
 //@   ensures h.predicate == nil ==> result == true
 //@   modifies nothing
 
-//@ func (*responseCommandHandler).Handle
+//@ func (*responseCommandHandler).Handle :: (h, ctx, cmd, s) (result)
 //@   props C20
 //@   requires h != nil && h.handlerFunc != nil && cmd != nil
 //@   modifies cmd.nFuncCalls, cmd.lastFuncCtx, cmd.lastFuncSender, cmd.lastFuncErr
 //@   ensures cmd.nFuncCalls == old(cmd.nFuncCalls) + 1 && cmd.lastFuncCtx == ctx && cmd.lastFuncErr == result
 //@   ensures cmd.lastFuncSender == s
 
-//@ func (*EnvelopeMux).ResponseCommandHandler
+//@ func (*EnvelopeMux).ResponseCommandHandler :: (m, handler) ()
 //@   props C20
 //@   requires m != nil && handler != nil
 //@   modifies m.respCmdHandlers
@@ -454,7 +454,7 @@ func verifAssume(cond bool) {}
 // populated (true for every caller: the target is allocated after the raw value).
 //@ spec fn rawApart(r *rawEnvelope, o *Envelope) bool = !sameobj(r, o) && !sameobj(r.From, o) && !sameobj(r.PP, o) && !sameobj(r.To, o) && !sameobj(r.Metadata, o) && !sameobj(r.Reason, o) && !sameobj(r.Type, o) && !sameobj(r.Content, o) && !sameobj(r.Event, o) && !sameobj(r.Method, o) && !sameobj(r.Resource, o) && !sameobj(r.URI, o) && !sameobj(r.Status, o) && !sameobj(r.State, o) && !sameobj(r.Encryption, o) && !sameobj(r.Compression, o) && !sameobj(r.Scheme, o) && !sameobj(r.Authentication, o)
 
-//@ func (*Envelope).toRawEnvelope
+//@ func (*Envelope).toRawEnvelope :: (env) (result0, result1)
 //@   props C01 C02
 //@   requires env != nil
 //@   ensures err == nil && result0 != nil && fresh(result0)
@@ -462,7 +462,7 @@ func verifAssume(cond bool) {}
 //@   ensures result0.Reason == nil && result0.Type == nil && noMsgFields(result0) && noNotFields(result0) && noCmdFields(result0) && noSesFields(result0)
 //@   modifies nothing
 
-//@ func (*Envelope).populate
+//@ func (*Envelope).populate :: (env, raw) (result)
 //@   props C01 C02
 //@   requires raw != nil && env != nil ==> rawApart(raw, env)
 //@   ensures result == nil
@@ -473,12 +473,12 @@ func verifAssume(cond bool) {}
 //@ spec fn resolveFactory(t MediaType) func() Document = ite(mapdom(documentFactories, t), documentFactories[t], ite(t.Suffix == "json", documentFactories[mediaTypeApplicationJson], documentFactories[mediaTypeTextPlain]))
 //@ spec fn factoryTag(f func() Document) int = uninterpreted
 
-//@ func (MediaType).IsJson
+//@ func (MediaType).IsJson :: (m) (result)
 //@   props C01 C02
 //@   ensures result == (m.Suffix == "json")
 //@   modifies nothing
 
-//@ func GetDocumentFactory
+//@ func GetDocumentFactory :: (t) (result0, result1)
 //@   props C01 C02
 //@   ensures err == nil ==> result0 != nil && result0 == resolveFactory(t)
 //@   ensures err != nil ==> resolveFactory(t) == nil
@@ -489,7 +489,7 @@ func verifAssume(cond bool) {}
 //@   ensures d != nil && fresh(d) && tagof(d) == factoryTag(self_)
 //@   note registered document factories return a new non-nil document of a fixed dynamic type
 
-//@ func UnmarshalDocument
+//@ func UnmarshalDocument :: (d, t) (result0, result1)
 //@   props C01 C02
 //@   ensures d == nil ==> err != nil
 //@   ensures d != nil && resolveFactory(t) != nil && docDecodes(bytes(*d), factoryTag(resolveFactory(t))) ==> err == nil
@@ -498,7 +498,7 @@ func verifAssume(cond bool) {}
 //@   ensures err == nil ==> resolveFactory(t) != nil
 //@   modifies nothing
 
-//@ func (*Message).toRawEnvelope
+//@ func (*Message).toRawEnvelope :: (msg) (result0, result1)
 //@   props C01 C02
 //@   requires msg != nil
 //@   ensures msg.Content == nil ==> err != nil
@@ -513,7 +513,7 @@ func verifAssume(cond bool) {}
 //@ spec fn popMessage(m *Message, old_m Message, r *rawEnvelope) bool = popBase(&m.Envelope, old_m.Envelope, r) && r.Type != nil && r.Content != nil && m.Type == *r.Type && popDoc(m.Content, r.Content, r.Type)
 //@ spec fn okMessage(r *rawEnvelope) bool = okDocRaw(r.Content, r.Type)
 
-//@ func (*Message).populate
+//@ func (*Message).populate :: (msg, raw) (result)
 //@   props C01 C02
 //@   requires msg != nil && raw != nil && rawApart(raw, msg)
 //@   ensures raw.Type == nil || raw.Content == nil ==> result != nil
@@ -521,17 +521,17 @@ func verifAssume(cond bool) {}
 //@   ensures result == nil ==> popMessage(msg, old(*msg), raw)
 //@   modifies *msg
 
-//@ func (*Message).UnmarshalJSON
+//@ func (*Message).UnmarshalJSON :: (msg, b) (result)
 //@   props C02
 //@   requires msg != nil
 //@   modifies *msg
 
-//@ func (*Message).MarshalJSON
+//@ func (*Message).MarshalJSON :: (msg) (result0, result1)
 //@   props C02
 //@   requires msg != nil
 //@   modifies nothing
 
-//@ func (*Notification).toRawEnvelope
+//@ func (*Notification).toRawEnvelope :: (not) (result0, result1)
 //@   props C01 C02
 //@   requires not != nil
 //@   ensures err == nil && result0 != nil && fresh(result0) && rawBase(result0, &not.Envelope)
@@ -541,7 +541,7 @@ func verifAssume(cond bool) {}
 
 //@ spec fn popNotification(n *Notification, old_n Notification, r *rawEnvelope) bool = popBase(&n.Envelope, old_n.Envelope, r) && r.Event != nil && n.Event == *r.Event && n.Reason == r.Reason
 
-//@ func (*Notification).populate
+//@ func (*Notification).populate :: (not, raw) (result)
 //@   props C01 C02
 //@   requires not != nil && raw != nil && rawApart(raw, not)
 //@   ensures raw.Event == nil ==> result != nil
@@ -549,14 +549,14 @@ func verifAssume(cond bool) {}
 //@   ensures result == nil ==> popNotification(not, old(*not), raw)
 //@   modifies *not
 
-//@ func (*Notification).UnmarshalJSON
+//@ func (*Notification).UnmarshalJSON :: (not, b) (result)
 //@   props C02
 //@   requires not != nil
 //@   modifies *not
 
 //@ spec fn rawCommand(r *rawEnvelope, c *Command) bool = rawBase(r, &c.Envelope) && ite(c.Method != "", r.Method == &c.Method, r.Method == nil) && ite(c.Resource != nil, r.Resource != nil && bytes(*r.Resource) == c.Resource.text && jsonValid(bytes(*r.Resource)) && r.Type == c.Type, r.Resource == nil && r.Type == nil)
 
-//@ func (*Command).toRawEnvelope
+//@ func (*Command).toRawEnvelope :: (cmd) (result0, result1)
 //@   props C01 C02
 //@   requires cmd != nil
 //@   ensures cmd.Resource == nil || jsonOK(cmd.Resource) ==> err == nil
@@ -568,7 +568,7 @@ func verifAssume(cond bool) {}
 //@ spec fn popCommand(c *Command, old_c Command, r *rawEnvelope) bool = popBase(&c.Envelope, old_c.Envelope, r) && r.Method != nil && c.Method == *r.Method && ite(r.Resource != nil, r.Type != nil && c.Type == r.Type && popDoc(c.Resource, r.Resource, r.Type), c.Type == old_c.Type && c.Resource == old_c.Resource)
 //@ spec fn okCommand(r *rawEnvelope) bool = r.Method != nil && (r.Resource != nil ==> okDocRaw(r.Resource, r.Type))
 
-//@ func (*Command).populate
+//@ func (*Command).populate :: (cmd, raw) (result)
 //@   props C01 C02
 //@   requires cmd != nil && raw != nil && rawApart(raw, cmd)
 //@   ensures raw.Method == nil ==> result != nil
@@ -580,7 +580,7 @@ func verifAssume(cond bool) {}
 //@ spec fn popRequest(c *RequestCommand, old_c RequestCommand, r *rawEnvelope) bool = popCommand(&c.Command, old_c.Command, r) && c.URI == r.URI
 //@ spec fn popResponse(c *ResponseCommand, old_c ResponseCommand, r *rawEnvelope) bool = popCommand(&c.Command, old_c.Command, r) && c.Reason == r.Reason && c.Status == ite(r.Status != nil, old(*r.Status), old_c.Status) && (r.Status != nil ==> old(*r.Status) != "")
 
-//@ func (*RequestCommand).toRawEnvelope
+//@ func (*RequestCommand).toRawEnvelope :: (cmd) (result0, result1)
 //@   props C01 C02
 //@   requires cmd != nil
 //@   ensures cmd.Resource == nil || jsonOK(cmd.Resource) ==> err == nil
@@ -588,7 +588,7 @@ func verifAssume(cond bool) {}
 //@   ensures err == nil ==> result0.Reason == nil && result0.Status == nil && noMsgFields(result0) && noNotFields(result0) && noSesFields(result0)
 //@   modifies nothing
 
-//@ func (*RequestCommand).populate
+//@ func (*RequestCommand).populate :: (cmd, raw) (result)
 //@   props C01 C02
 //@   requires cmd != nil && raw != nil && rawApart(raw, cmd)
 //@   ensures raw.Method == nil ==> result != nil
@@ -596,12 +596,12 @@ func verifAssume(cond bool) {}
 //@   ensures result == nil ==> popRequest(cmd, old(*cmd), raw)
 //@   modifies *cmd
 
-//@ func (*RequestCommand).UnmarshalJSON
+//@ func (*RequestCommand).UnmarshalJSON :: (cmd, b) (result)
 //@   props C02
 //@   requires cmd != nil
 //@   modifies *cmd
 
-//@ func (*ResponseCommand).toRawEnvelope
+//@ func (*ResponseCommand).toRawEnvelope :: (cmd) (result0, result1)
 //@   props C01 C02
 //@   requires cmd != nil
 //@   ensures cmd.Resource == nil || jsonOK(cmd.Resource) ==> err == nil
@@ -610,7 +610,7 @@ func verifAssume(cond bool) {}
 //@   ensures err == nil ==> result0.URI == nil && noMsgFields(result0) && noNotFields(result0) && noSesFields(result0)
 //@   modifies nothing
 
-//@ func (*ResponseCommand).populate
+//@ func (*ResponseCommand).populate :: (cmd, raw) (result)
 //@   props C01 C02
 //@   requires cmd != nil && raw != nil && rawApart(raw, cmd)
 //@   ensures raw.Method == nil ==> result != nil
@@ -618,12 +618,12 @@ func verifAssume(cond bool) {}
 //@   ensures result == nil ==> popResponse(cmd, old(*cmd), raw)
 //@   modifies *cmd
 
-//@ func (*ResponseCommand).UnmarshalJSON
+//@ func (*ResponseCommand).UnmarshalJSON :: (cmd, b) (result)
 //@   props C02
 //@   requires cmd != nil
 //@   modifies *cmd
 
-//@ func (*rawEnvelope).envelopeType
+//@ func (*rawEnvelope).envelopeType :: (re) (result0, result1)
 //@   props C01 C02
 //@   requires re != nil
 //@   ensures re.Method != nil && re.URI != nil ==> result0 == "RequestCommand" && err == nil
@@ -640,7 +640,7 @@ func verifAssume(cond bool) {}
 //@ spec fn kindMsg(re *rawEnvelope) bool = !kindReq(re) && !kindResp(re) && re.Event == nil && re.Content != nil
 //@ spec fn kindSes(re *rawEnvelope) bool = !kindReq(re) && !kindResp(re) && re.Event == nil && re.Content == nil && re.State != nil
 
-//@ func (*rawEnvelope).toEnvelope
+//@ func (*rawEnvelope).toEnvelope :: (re) (result0, result1)
 //@   props C01 C02
 //@   requires re != nil
 //@   ensures err == nil ==> result0 != nil && fresh(result0)
@@ -673,7 +673,7 @@ func verifAssume(cond bool) {}
 //@   ensures a != nil && fresh(a) && tagof(a) == authFactoryTag(self_)
 //@   note authFactories holds only the package's own factories, which return a new non-nil value
 
-//@ func (*Session).toRawEnvelope
+//@ func (*Session).toRawEnvelope :: (s) (result0, result1)
 //@   props C01 C02
 //@   requires s != nil
 //@   ensures s.Authentication == nil || authOK(s.Authentication) ==> err == nil
@@ -691,7 +691,7 @@ func verifAssume(cond bool) {}
 //@ spec fn okSession(r *rawEnvelope) bool = r.State != nil && (r.Authentication != nil ==> r.Scheme != nil && mapdom(authFactories, *r.Scheme) && authDecodes(bytes(*r.Authentication), authFactoryTag(authFactories[*r.Scheme])))
 //@ spec fn popSession(s *Session, old_s Session, r *rawEnvelope) bool = popBase(&s.Envelope, old_s.Envelope, r) && r.State != nil && s.State == *r.State && s.Reason == r.Reason && s.EncryptionOptions == r.EncryptionOptions && s.CompressionOptions == r.CompressionOptions && s.SchemeOptions == r.SchemeOptions && s.Encryption == ite(r.Encryption != nil, old(*r.Encryption), old_s.Encryption) && s.Compression == ite(r.Compression != nil, old(*r.Compression), old_s.Compression) && s.Scheme == ite(r.Scheme != nil, old(*r.Scheme), old_s.Scheme) && ite(r.Authentication == nil, s.Authentication == old_s.Authentication, r.Scheme != nil && (s.Authentication != nil ==> tagof(s.Authentication) == authFactoryTag(authFactories[old(*r.Scheme)]) && s.Authentication.text == bytes(*r.Authentication) && authOK(s.Authentication) && authDecodes(s.Authentication.text, tagof(s.Authentication)) && mapdom(authFactories, old(*r.Scheme)) && old(*r.Scheme) != "") && (s.Authentication == nil ==> bytes(*r.Authentication) == "null"))
 
-//@ func (*Session).populate
+//@ func (*Session).populate :: (s, raw) (result)
 //@   props C01 C02
 //@   requires s != nil && raw != nil && rawApart(raw, s)
 //@   ensures raw.State == nil ==> result != nil
@@ -700,14 +700,14 @@ func verifAssume(cond bool) {}
 //@   ensures result == nil ==> popSession(s, old(*s), raw)
 //@   modifies *s
 
-//@ func (*Session).UnmarshalJSON
+//@ func (*Session).UnmarshalJSON :: (s, b) (result)
 //@   props C02
 //@   requires s != nil
 //@   modifies *s
 
 // ---- documents -------------------------------------------------------------
 
-//@ func (*DocumentContainer).raw
+//@ func (*DocumentContainer).raw :: (d) (result0, result1)
 //@   props C01 C02
 //@   requires d != nil
 //@   ensures jsonOK(d.Value) ==> err == nil
@@ -715,7 +715,7 @@ func verifAssume(cond bool) {}
 //@   ensures err == nil ==> result0.Type == &d.Type && result0.Value != nil && fresh(result0.Value) && bytes(*result0.Value) == d.Value.text
 //@   modifies nothing
 
-//@ func (*DocumentContainer).populate
+//@ func (*DocumentContainer).populate :: (d, raw) (result)
 //@   props C01 C02
 //@   requires d != nil && raw != nil && !sameobj(raw.Type, d) && !sameobj(raw.Value, d)
 //@   ensures raw.Type == nil ==> result != nil
@@ -723,12 +723,12 @@ func verifAssume(cond bool) {}
 //@   ensures result == nil && d.Value != nil ==> tagof(d.Value) == factoryTag(resolveFactory(*raw.Type)) && d.Value.text == bytes(*raw.Value)
 //@   modifies *d
 
-//@ func (*DocumentContainer).UnmarshalJSON
+//@ func (*DocumentContainer).UnmarshalJSON :: (d, b) (result)
 //@   props C02
 //@   requires d != nil
 //@   modifies *d
 
-//@ func (*DocumentCollection).populate
+//@ func (*DocumentCollection).populate :: (d, raw) (result)
 //@   props C01 C02
 //@   requires d != nil && raw != nil && !sameobj(raw.ItemType, d) && !sameobj(raw.Items, d)
 //@   ensures raw.ItemType == nil ==> result != nil
@@ -739,12 +739,12 @@ func verifAssume(cond bool) {}
 //@   loop 0 invariant len(d.Items) == len(raw.Items) && fresh(d.Items) && d.Items != nil
 //@   modifies *d
 
-//@ func (*DocumentCollection).UnmarshalJSON
+//@ func (*DocumentCollection).UnmarshalJSON :: (d, b) (result)
 //@   props C02
 //@   requires d != nil
 //@   modifies *d
 
-//@ func (*DocumentCollection).raw
+//@ func (*DocumentCollection).raw :: (d) (result0, result1)
 //@   props C01 C02
 //@   requires d != nil
 //@   ensures result0 != nil && fresh(result0)
@@ -756,38 +756,38 @@ func verifAssume(cond bool) {}
 
 // ---- text hooks called back by encoding/json --------------------------------
 
-//@ func (*NotificationEvent).Validate
+//@ func (*NotificationEvent).Validate :: (e) (result)
 //@   props C01 C02
 //@   requires e != nil
 //@   ensures (result == nil) == validEvent(*e)
 //@   modifies nothing
 
-//@ func (*NotificationEvent).UnmarshalText
+//@ func (*NotificationEvent).UnmarshalText :: (e, text) (result)
 //@   props C01 C02
 //@   requires e != nil
 //@   ensures result == nil ==> validEvent(*e) && *e == NotificationEvent(bytes(text))
 //@   ensures result != nil ==> *e == old(*e)
 //@   modifies *e
 
-//@ func (NotificationEvent).MarshalText
+//@ func (NotificationEvent).MarshalText :: (e) (result0, result1)
 //@   props C01 C02
 //@   ensures validEvent(e) ==> result1 == nil && bytes(result0) == string(e)
 //@   ensures !validEvent(e) ==> result1 != nil
 //@   modifies nothing
 
-//@ func (CommandMethod).Validate
+//@ func (CommandMethod).Validate :: (m) (result)
 //@   props C01 C02
 //@   ensures (result == nil) == validMethod(m)
 //@   modifies nothing
 
-//@ func (*CommandMethod).UnmarshalText
+//@ func (*CommandMethod).UnmarshalText :: (m, text) (result)
 //@   props C01 C02
 //@   requires m != nil
 //@   ensures result == nil ==> validMethod(*m) && *m == CommandMethod(bytes(text))
 //@   ensures result != nil ==> *m == old(*m)
 //@   modifies *m
 
-//@ func (CommandMethod).MarshalText
+//@ func (CommandMethod).MarshalText :: (m) (result0, result1)
 //@   props C01 C02
 //@   ensures validMethod(m) ==> result1 == nil && bytes(result0) == string(m)
 //@   ensures !validMethod(m) ==> result1 != nil
@@ -795,32 +795,32 @@ func verifAssume(cond bool) {}
 
 //@ spec fn validState(s SessionState) bool = s == SessionStateNew || s == SessionStateNegotiating || s == SessionStateAuthenticating || s == SessionStateEstablished || s == SessionStateFinishing || s == SessionStateFinished || s == SessionStateFailed
 
-//@ func (SessionState).Validate
+//@ func (SessionState).Validate :: (s) (result)
 //@   props C01 C02
 //@   ensures (result == nil) == validState(s)
 //@   modifies nothing
 
-//@ func (*SessionState).UnmarshalText
+//@ func (*SessionState).UnmarshalText :: (s, text) (result)
 //@   props C01 C02
 //@   requires s != nil
 //@   ensures result == nil ==> validState(*s) && *s == SessionState(bytes(text))
 //@   ensures result != nil ==> *s == old(*s)
 //@   modifies *s
 
-//@ func (SessionState).MarshalText
+//@ func (SessionState).MarshalText :: (s) (result0, result1)
 //@   props C01 C02
 //@   ensures validState(s) ==> result1 == nil && bytes(result0) == string(s)
 //@   ensures !validState(s) ==> result1 != nil
 //@   modifies nothing
 
-//@ func ParseMediaType
+//@ func ParseMediaType :: (s) (result0, result1)
 //@   props C01 C02
 //@   modifies nothing
 //@   ensures (result1 == nil) == mtDecodes(s)
 //@   ensures result1 == nil ==> result0 == parseMT(s)
 //@   ensures result1 != nil ==> result0 == MediaType{}
 
-//@ func (*MediaType).UnmarshalText
+//@ func (*MediaType).UnmarshalText :: (m, text) (result)
 //@   props C01 C02
 //@   requires m != nil
 //@   modifies *m
@@ -828,34 +828,34 @@ func verifAssume(cond bool) {}
 //@   ensures result == nil ==> *m == parseMT(bytes(text))
 //@   ensures result != nil ==> *m == old(*m)
 
-//@ func ParseIdentity
+//@ func ParseIdentity :: (s) (result)
 //@   props C01 C02
 //@   modifies nothing
 //@   ensures result == parseIdent(s)
 
-//@ func ParseNode
+//@ func ParseNode :: (s) (result)
 //@   props C01 C02
 //@   modifies nothing
 //@   ensures result == parseNode(s)
 
-//@ func (*Node).UnmarshalText
+//@ func (*Node).UnmarshalText :: (n, text) (result)
 //@   props C01 C02
 //@   requires n != nil
 //@   ensures result == nil && *n == parseNode(bytes(text))
 //@   modifies *n
 
-//@ func (*Identity).UnmarshalText
+//@ func (*Identity).UnmarshalText :: (i, text) (result)
 //@   props C01 C02
 //@   requires i != nil
 //@   ensures result == nil && *i == parseIdent(bytes(text))
 //@   modifies *i
 
-//@ func ParseLimeURI
+//@ func ParseLimeURI :: (s) (result0, result1)
 //@   props C02
 //@   ensures err == nil ==> result0 != nil && fresh(result0) && result0.url != nil
 //@   modifies nothing
 
-//@ func (*URI).UnmarshalText
+//@ func (*URI).UnmarshalText :: (u, text) (result)
 //@   props C02
 //@   requires u != nil
 //@   modifies *u
@@ -869,7 +869,7 @@ func verifAssume(cond bool) {}
 
 func verifWireRawEnvelope(in *rawEnvelope) (out *rawEnvelope, err error) { panic("ghost") }
 
-//@ func verifWireRawEnvelope
+//@ func verifWireRawEnvelope :: (in) (out, err)
 //@   derive wire
 
 // Text forms (C01: "parse back to the value that produced them"). The spec
@@ -899,27 +899,27 @@ func verifWireRawEnvelope(in *rawEnvelope) (out *rawEnvelope, err error) { panic
 //@ spec fn textRT_SessionState(s SessionState) SessionState = s
 //@ spec fn textDecodes_SessionState(s SessionState) bool = validState(s)
 
-//@ func (Identity).String
+//@ func (Identity).String :: (i) (result)
 //@   props C01 C02
 //@   modifies nothing
 //@   ensures result == identStr(i)
-//@ func (Node).String
+//@ func (Node).String :: (n) (result)
 //@   props C01 C02
 //@   modifies nothing
 //@   ensures result == nodeStr(n)
-//@ func (MediaType).String
+//@ func (MediaType).String :: (m) (result)
 //@   props C01 C02
 //@   modifies nothing
 //@   ensures result == mtStr(m)
-//@ func (Node).MarshalText
+//@ func (Node).MarshalText :: (n) (result0, result1)
 //@   props C01 C02
 //@   modifies nothing
 //@   ensures result1 == nil && bytes(result0) == nodeStr(n)
-//@ func (Identity).MarshalText
+//@ func (Identity).MarshalText :: (i) (result0, result1)
 //@   props C01 C02
 //@   modifies nothing
 //@   ensures result1 == nil && bytes(result0) == identStr(i)
-//@ func (MediaType).MarshalText
+//@ func (MediaType).MarshalText :: (m) (result0, result1)
 //@   props C01 C02
 //@   modifies nothing
 //@   ensures result1 == nil && bytes(result0) == mtStr(m)
@@ -927,52 +927,52 @@ func verifWireRawEnvelope(in *rawEnvelope) (out *rawEnvelope, err error) { panic
 // Text lemmas: String then Parse is the identity on textOK values (C01), and a
 // parsed value is a fixpoint of String∘Parse (C02; this is what justifies the
 // decoder facts parsed_* in decodedRaw).
-//@ lemma lemmaSplitConcat
+//@ lemma lemmaSplitConcat :: (a, sep, b) ()
 //@   props C01 C02
 //@   requires len(sep) == 1 && !strcontains(a, sep)
 //@   ensures strbefore(a + sep + b, sep) == a && strafter(a + sep + b, sep) == b && strcontains(a + sep + b, sep)
-//@ lemma lemmaNoSepConcat
+//@ lemma lemmaNoSepConcat :: (a, mid, b, sep) ()
 //@   props C01 C02
 //@   requires len(sep) == 1 && !strcontains(a, sep) && !strcontains(mid, sep) && !strcontains(b, sep)
 //@   ensures !strcontains(a + mid + b, sep)
-//@ func verifBefore
+//@ func verifBefore :: (s, sep) (result)
 //@   props C01 C02
 //@   modifies nothing
 //@   ensures result == strbefore(s, sep)
-//@ func verifAfter
+//@ func verifAfter :: (s, sep) (result)
 //@   props C01 C02
 //@   modifies nothing
 //@   ensures result == strafter(s, sep)
-//@ lemma lemmaBeforeClean
+//@ lemma lemmaBeforeClean :: (s, sep) ()
 //@   props C02
 //@   requires len(sep) == 1
 //@   ensures !strcontains(strbefore(s, sep), sep)
-//@ lemma lemmaSubClean
+//@ lemma lemmaSubClean :: (s, sep, c) ()
 //@   props C02
 //@   requires len(sep) == 1 && len(c) == 1 && !strcontains(s, c)
 //@   ensures !strcontains(strbefore(s, sep), c) && !strcontains(strafter(s, sep), c)
-//@ lemma lemmaTextIdentity
+//@ lemma lemmaTextIdentity :: (i) (result)
 //@   props C01
 //@   requires textOK_Identity(i)
 //@   ensures result == i
-//@ lemma lemmaTextNode
+//@ lemma lemmaTextNode :: (n) (result)
 //@   props C01
 //@   reveals textRT_Node
 //@   requires textOK_Node(n)
 //@   ensures result == n && textRT_Node(n) == n
-//@ lemma lemmaTextMediaType
+//@ lemma lemmaTextMediaType :: (m) (result0, result1)
 //@   props C01
 //@   reveals textRT_MediaType, textDecodes_MediaType
 //@   requires textOK_MediaType(m)
 //@   ensures result1 == nil && result0 == m && textRT_MediaType(m) == m && textDecodes_MediaType(m)
-//@ lemma lemmaStableIdentity
+//@ lemma lemmaStableIdentity :: (s) (result0, result1)
 //@   props C02
 //@   ensures result0 == result1
-//@ lemma lemmaStableNode
+//@ lemma lemmaStableNode :: (s) (result0, result1)
 //@   props C02
 //@   reveals textRT_Node
 //@   ensures result0 == result1 && textRT_Node(result0) == result0
-//@ lemma lemmaStableMediaType
+//@ lemma lemmaStableMediaType :: (s) (m, m2, accepted, ok2)
 //@   props C02
 //@   reveals textRT_MediaType, textDecodes_MediaType
 //@   ensures accepted ==> ok2 && m2 == m && textRT_MediaType(m) == m && textDecodes_MediaType(m)
@@ -1079,7 +1079,7 @@ func lemmaStableMediaType(s string) (m MediaType, m2 MediaType, accepted bool, o
 //@ spec fn wfMessage(m *Message) bool = m != nil && wfEnvelope(&m.Envelope) && wfDoc(m.Content, m.Type)
 //@ spec fn eqMessage(a *Message, b *Message) bool = a != nil && eqEnvelope(&a.Envelope, &b.Envelope) && a.Type == b.Type && eqDoc(a.Content, b.Content)
 
-//@ lemma lemmaRoundtripMessage
+//@ lemma lemmaRoundtripMessage :: (e) (e2, ok)
 //@   props C01
 //@   requires wfMessage(e)
 //@   ensures ok && eqMessage(e2, e)
@@ -1130,19 +1130,19 @@ func lemmaRoundtripMessage(e *Message) (e2 *Message, ok bool) {
 //@ spec fn eqAuth(a Authentication, b Authentication) bool = (a == nil && b == nil) || (a != nil && b != nil && tagof(a) == tagof(b) && a.text == b.text)
 //@ spec fn eqSession(a *Session, b *Session) bool = a != nil && eqEnvelope(&a.Envelope, &b.Envelope) && a.State == b.State && a.Encryption == b.Encryption && a.Compression == b.Compression && a.Scheme == b.Scheme && eqReason(a.Reason, b.Reason) && eqSeqEnc(a.EncryptionOptions, b.EncryptionOptions) && eqSeqComp(a.CompressionOptions, b.CompressionOptions) && eqSeqScheme(a.SchemeOptions, b.SchemeOptions) && eqAuth(a.Authentication, b.Authentication)
 
-//@ lemma lemmaRoundtripNotification
+//@ lemma lemmaRoundtripNotification :: (e) (e2, ok)
 //@   props C01
 //@   requires wfNotificationEnv(e)
 //@   ensures ok && eqNotification(e2, e)
-//@ lemma lemmaRoundtripRequest
+//@ lemma lemmaRoundtripRequest :: (e) (e2, ok)
 //@   props C01
 //@   requires wfRequest(e)
 //@   ensures ok && eqRequest(e2, e)
-//@ lemma lemmaRoundtripResponse
+//@ lemma lemmaRoundtripResponse :: (e) (e2, ok)
 //@   props C01
 //@   requires wfResponseEnv(e)
 //@   ensures ok && eqResponse(e2, e)
-//@ lemma lemmaRoundtripSession
+//@ lemma lemmaRoundtripSession :: (e) (e2, ok)
 //@   props C01
 //@   requires wfSession(e)
 //@   ensures ok && eqSession(e2, e)
@@ -1247,23 +1247,23 @@ func lemmaRoundtripSession(e *Session) (e2 *Session, ok bool) {
 
 // The same through the transports' receive path (raw.toEnvelope()).
 
-//@ lemma lemmaReceiveMessage
+//@ lemma lemmaReceiveMessage :: (e) (e2, ok)
 //@   props C01
 //@   requires wfMessage(e)
 //@   ensures ok && eqMessage(e2, e)
-//@ lemma lemmaReceiveNotification
+//@ lemma lemmaReceiveNotification :: (e) (e2, ok)
 //@   props C01
 //@   requires wfNotificationEnv(e)
 //@   ensures ok && eqNotification(e2, e)
-//@ lemma lemmaReceiveRequest
+//@ lemma lemmaReceiveRequest :: (e) (e2, ok)
 //@   props C01
 //@   requires wfRequest(e)
 //@   ensures ok && eqRequest(e2, e)
-//@ lemma lemmaReceiveResponse
+//@ lemma lemmaReceiveResponse :: (e) (e2, ok)
 //@   props C01
 //@   requires wfResponseEnv(e)
 //@   ensures ok && eqResponse(e2, e)
-//@ lemma lemmaReceiveSession
+//@ lemma lemmaReceiveSession :: (e) (e2, ok)
 //@   props C01
 //@   requires wfSession(e)
 //@   ensures ok && eqSession(e2, e)
@@ -1392,7 +1392,7 @@ func lemmaReceiveSession(e *Session) (e2 *Session, ok bool) {
 
 
 // typed decoder path: accepted by Message.populate (what Message.UnmarshalJSON runs)
-//@ lemma lemmaReencodeMessage
+//@ lemma lemmaReencodeMessage :: (raw) (e, e3, accepted, ok)
 //@   props C02
 //@   requires raw != nil && decodedRaw(raw) && stableRaw(raw)
 //@   ensures accepted ==> ok && eqMessage(e3, e)
@@ -1418,7 +1418,7 @@ func lemmaReencodeMessage(raw *rawEnvelope) (e *Message, e3 *Message, accepted b
 }
 
 // transport receive path: accepted by raw.toEnvelope() as a Message
-//@ lemma lemmaForwardMessage
+//@ lemma lemmaForwardMessage :: (raw) (e, e3, accepted, ok)
 //@   props C02
 //@   requires raw != nil && decodedRaw(raw) && stableRaw(raw)
 //@   ensures accepted ==> ok && eqMessage(e3, e)
@@ -1449,7 +1449,7 @@ func lemmaForwardMessage(raw *rawEnvelope) (e *Message, e3 *Message, accepted bo
 }
 
 // typed decoder path: accepted by Notification.populate (what Notification.UnmarshalJSON runs)
-//@ lemma lemmaReencodeNotification
+//@ lemma lemmaReencodeNotification :: (raw) (e, e3, accepted, ok)
 //@   props C02
 //@   requires raw != nil && decodedRaw(raw) && stableRaw(raw)
 //@   ensures accepted ==> ok && eqNotification(e3, e)
@@ -1475,7 +1475,7 @@ func lemmaReencodeNotification(raw *rawEnvelope) (e *Notification, e3 *Notificat
 }
 
 // transport receive path: accepted by raw.toEnvelope() as a Notification
-//@ lemma lemmaForwardNotification
+//@ lemma lemmaForwardNotification :: (raw) (e, e3, accepted, ok)
 //@   props C02
 //@   requires raw != nil && decodedRaw(raw) && stableRaw(raw)
 //@   ensures accepted ==> ok && eqNotification(e3, e)
@@ -1506,7 +1506,7 @@ func lemmaForwardNotification(raw *rawEnvelope) (e *Notification, e3 *Notificati
 }
 
 // typed decoder path: accepted by RequestCommand.populate (what RequestCommand.UnmarshalJSON runs)
-//@ lemma lemmaReencodeRequestCommand
+//@ lemma lemmaReencodeRequestCommand :: (raw) (e, e3, accepted, ok)
 //@   props C02
 //@   requires raw != nil && decodedRaw(raw) && stableRaw(raw)
 //@   ensures accepted ==> ok && eqRequest(e3, e)
@@ -1532,7 +1532,7 @@ func lemmaReencodeRequestCommand(raw *rawEnvelope) (e *RequestCommand, e3 *Reque
 }
 
 // transport receive path: accepted by raw.toEnvelope() as a RequestCommand
-//@ lemma lemmaForwardRequestCommand
+//@ lemma lemmaForwardRequestCommand :: (raw) (e, e3, accepted, ok)
 //@   props C02
 //@   requires raw != nil && decodedRaw(raw) && stableRaw(raw)
 //@   ensures accepted ==> ok && eqRequest(e3, e)
@@ -1563,7 +1563,7 @@ func lemmaForwardRequestCommand(raw *rawEnvelope) (e *RequestCommand, e3 *Reques
 }
 
 // typed decoder path: accepted by ResponseCommand.populate (what ResponseCommand.UnmarshalJSON runs)
-//@ lemma lemmaReencodeResponseCommand
+//@ lemma lemmaReencodeResponseCommand :: (raw) (e, e3, accepted, ok)
 //@   props C02
 //@   requires raw != nil && decodedRaw(raw) && stableRaw(raw)
 //@   ensures accepted ==> ok && eqResponse(e3, e)
@@ -1589,7 +1589,7 @@ func lemmaReencodeResponseCommand(raw *rawEnvelope) (e *ResponseCommand, e3 *Res
 }
 
 // transport receive path: accepted by raw.toEnvelope() as a ResponseCommand
-//@ lemma lemmaForwardResponseCommand
+//@ lemma lemmaForwardResponseCommand :: (raw) (e, e3, accepted, ok)
 //@   props C02
 //@   requires raw != nil && decodedRaw(raw) && stableRaw(raw)
 //@   ensures accepted ==> ok && eqResponse(e3, e)
@@ -1620,7 +1620,7 @@ func lemmaForwardResponseCommand(raw *rawEnvelope) (e *ResponseCommand, e3 *Resp
 }
 
 // typed decoder path: accepted by Session.populate (what Session.UnmarshalJSON runs)
-//@ lemma lemmaReencodeSession
+//@ lemma lemmaReencodeSession :: (raw) (e, e3, accepted, ok)
 //@   props C02
 //@   requires raw != nil && decodedRaw(raw) && stableRaw(raw)
 //@   ensures accepted ==> ok && eqSession(e3, e)
@@ -1646,7 +1646,7 @@ func lemmaReencodeSession(raw *rawEnvelope) (e *Session, e3 *Session, accepted b
 }
 
 // transport receive path: accepted by raw.toEnvelope() as a Session
-//@ lemma lemmaForwardSession
+//@ lemma lemmaForwardSession :: (raw) (e, e3, accepted, ok)
 //@   props C02
 //@   requires raw != nil && decodedRaw(raw) && stableRaw(raw)
 //@   ensures accepted ==> ok && eqSession(e3, e)
@@ -1767,36 +1767,36 @@ func lemmaForwardSession(raw *rawEnvelope) (e *Session, e3 *Session, accepted bo
 //@ spec fn step(s SessionState) int = ite(s == SessionStateNew, 0, ite(s == SessionStateNegotiating, 1, ite(s == SessionStateAuthenticating, 2, ite(s == SessionStateEstablished, 3, ite(s == SessionStateFinishing, 4, ite(s == SessionStateFinished, 5, ite(s == SessionStateFailed, 6, -1)))))))
 //@ spec fn transportOK(c *channel) bool = c.transport != nil && !payloadnil(c.transport) && c.transport.connected
 
-//@ func (SessionState).Step
+//@ func (SessionState).Step :: (s) (result)
 //@   props C07 C08
 //@   ensures result == step(s)
 //@   modifies nothing
 
-//@ func (*channel).State
+//@ func (*channel).State :: (c) (result)
 //@   props C06 C07 C08
 //@   requires c != nil
 //@   ensures result == c.state
 //@   modifies nothing
 
-//@ func (*channel).ensureTransportOK
+//@ func (*channel).ensureTransportOK :: (c, action) (result)
 //@   props C06 C07 C08 C14
 //@   requires c != nil
 //@   ensures (result == nil) == transportOK(c)
 //@   modifies nothing
 
-//@ func (*channel).ensureState
+//@ func (*channel).ensureState :: (c, state, action) (result)
 //@   props C06 C07 C08
 //@   requires c != nil
 //@   ensures (result == nil) == (transportOK(c) && c.state == state)
 //@   modifies nothing
 
-//@ func (*channel).ensureEstablished
+//@ func (*channel).ensureEstablished :: (c, action) (result)
 //@   props C06
 //@   requires c != nil
 //@   ensures (result == nil) == (transportOK(c) && c.state == SessionStateEstablished)
 //@   modifies nothing
 
-//@ func (*channel).setStateWLock
+//@ func (*channel).setStateWLock :: (c, state) ()
 //@   props C07 C08
 //@   requires c != nil
 //@   panics only-if step(state) < step(c.state)
@@ -1808,17 +1808,17 @@ func lemmaForwardSession(raw *rawEnvelope) (e *Session, e3 *Session, accepted bo
 // all inbound streams and the done signal exist and are still open.
 //@ spec fn rcvReady(c *channel) bool = c.processingCmds != nil && streamsOpen(c, c.rcvDone)
 
-//@ func (*channel).startReceiver
+//@ func (*channel).startReceiver :: (c) ()
 //@   props C06 C07 C08 C14
 //@   requires c != nil && c.transport != nil && !payloadnil(c.transport) && rcvReady(c)
 //@   modifies c.cancel
 
-//@ func (*channel).stopReceiver
+//@ func (*channel).stopReceiver :: (c) ()
 //@   props C06 C07 C08 C14
 //@   requires c != nil
 //@   modifies nothing
 
-//@ func (*channel).setState
+//@ func (*channel).setState :: (c, state) ()
 //@   props C06 C07 C08
 //@   requires c != nil
 //@   requires [C06] @receiverready state == SessionStateEstablished && !c.startRcv.fired ==> c.transport != nil && !payloadnil(c.transport) && rcvReady(c)
@@ -1830,7 +1830,7 @@ func lemmaForwardSession(raw *rawEnvelope) (e *Session, e3 *Session, accepted bo
 //@   ensures state == SessionStateFinished || state == SessionStateFailed ==> c.stopRcv.fired
 //@   ensures state != SessionStateFinished && state != SessionStateFailed ==> c.stopRcv.fired == old(c.stopRcv.fired)
 
-//@ func (*channel).sendSession
+//@ func (*channel).sendSession :: (c, ctx, ses) (result)
 //@   props C06 C07 C08
 //@   requires c != nil && ses != nil
 //@   modifies c.transport.nSent, c.transport.lastSent, c.transport.nSentSes, c.transport.lastSes, c.transport.connected, c.transport.stage, c.transport.offerEnc, c.transport.offerComp, c.transport.offerSchemes, c.transport.confEnc, c.transport.confComp
@@ -1848,7 +1848,7 @@ func lemmaForwardSession(raw *rawEnvelope) (e *Session, e3 *Session, accepted bo
 //@   ensures result != nil ==> c.transport.nSentSes == old(c.transport.nSentSes) && c.transport.lastSes == old(c.transport.lastSes) && c.transport.nSent == old(c.transport.nSent)
 //@   ensures c.transport != nil && c.transport.connected ==> old(c.transport.connected)
 
-//@ func (*channel).receiveSession
+//@ func (*channel).receiveSession :: (c, ctx) (result0, result1)
 //@   props C06 C07 C08
 //@   requires c != nil
 //@   panics only-if ctx == nil
@@ -1883,7 +1883,7 @@ func lemmaForwardSession(raw *rawEnvelope) (e *Session, e3 *Session, accepted bo
 //@ method Authentication.GetAuthenticationScheme(a) (result)
 //@   pure
 
-//@ func (*Session).SetAuthentication
+//@ func (*Session).SetAuthentication :: (s, a) ()
 //@   props C08
 //@   requires s != nil && a != nil
 //@   modifies s.Authentication, s.Scheme
@@ -1893,13 +1893,13 @@ func lemmaForwardSession(raw *rawEnvelope) (e *Session, e3 *Session, accepted bo
 // the first one is a fresh 'new' session without id; every later one echoes the
 // id of the server's latest session envelope; credentials only in answer to an
 // authentication request.
-//@ func (*channel).sendSession
+//@ func (*channel).sendSession :: (c, ctx, ses) (result)
 //@   requires [C08] @first c.client && c.transport != nil && c.transport.nRecv == 0 ==> ses.ID == "" && ses.State == SessionStateNew && ses.Authentication == nil
 //@   requires [C08] @echo c.client && c.transport != nil && c.transport.nRecv > 0 && c.state != SessionStateEstablished ==> istype(c.transport.lastRecv, *Session) && ses.ID == recvSes(c).ID
 //@   requires [C08] @cred c.client && ses.Authentication != nil ==> c.transport != nil && istype(c.transport.lastRecv, *Session) && recvSes(c).State == SessionStateAuthenticating
 //@   requires [C08] @estid c.client && c.state == SessionStateEstablished ==> ses.ID == c.sessionID
 
-//@ func (*ClientChannel).receiveSessionFromServer
+//@ func (*ClientChannel).receiveSessionFromServer :: (c, ctx) (result0, result1)
 //@   props C08
 //@   ensures [C08] @closesonterminal step(old(c.state)) < 5 && c.transport.nRecv == old(c.transport.nRecv) + 1 && istype(c.transport.lastRecv, *Session) && (recvSes(c.channel).State == SessionStateFinished || recvSes(c.channel).State == SessionStateFailed) ==> !c.transport.connected  ## whatever else it reports, a client that was answered finished or failed has closed its connection
 //@   ensures err == nil && old(c.state) != SessionStateEstablished && result0.State != SessionStateFinished && result0.State != SessionStateFailed ==> c.transport.connected
@@ -1919,7 +1919,7 @@ func lemmaForwardSession(raw *rawEnvelope) (e *Session, e3 *Session, accepted bo
 //@   ensures step(c.state) >= step(old(c.state))
 //@   ensures cliOK(c)  ## in particular: the receiver can still be spawned (streams open) as long as it has not been
 
-//@ func (*ClientChannel).startNewSession
+//@ func (*ClientChannel).startNewSession :: (c, ctx) (result0, result1)
 //@   props C08
 //@   ensures err == nil && result0.State == SessionStateEstablished ==> c.startRcv.fired
 //@   ensures c.startRcv.fired && !old(c.startRcv.fired) ==> step(c.state) >= 3
@@ -1933,7 +1933,7 @@ func lemmaForwardSession(raw *rawEnvelope) (e *Session, e3 *Session, accepted bo
 //@   ensures err == nil && (result0.State == SessionStateFinished || result0.State == SessionStateFailed) ==> !c.transport.connected
 //@   ensures cliOK(c)  ## in particular: the receiver can still be spawned (streams open) as long as it has not been
 
-//@ func (*ClientChannel).negotiateSession
+//@ func (*ClientChannel).negotiateSession :: (c, ctx, comp, encrypt) (result0, result1)
 //@   props C08
 //@   ensures err == nil && result0.State != SessionStateFinished && result0.State != SessionStateFailed ==> c.transport.connected
 //@   ensures err == nil && result0.State == SessionStateEstablished ==> c.startRcv.fired
@@ -1948,7 +1948,7 @@ func lemmaForwardSession(raw *rawEnvelope) (e *Session, e3 *Session, accepted bo
 //@   ensures err == nil && (result0.State == SessionStateFinished || result0.State == SessionStateFailed) ==> !c.transport.connected
 //@   ensures cliOK(c)  ## in particular: the receiver can still be spawned (streams open) as long as it has not been
 
-//@ func (*ClientChannel).authenticateSession
+//@ func (*ClientChannel).authenticateSession :: (c, ctx, identity, auth, instance) (result0, result1)
 //@   props C08
 //@   ensures err == nil && result0.State == SessionStateEstablished ==> c.startRcv.fired
 //@   ensures c.startRcv.fired && !old(c.startRcv.fired) ==> step(c.state) >= 3
@@ -1962,13 +1962,13 @@ func lemmaForwardSession(raw *rawEnvelope) (e *Session, e3 *Session, accepted bo
 //@   ensures err == nil && (result0.State == SessionStateFinished || result0.State == SessionStateFailed) ==> !c.transport.connected
 //@   ensures cliOK(c)  ## in particular: the receiver can still be spawned (streams open) as long as it has not been
 
-//@ func (*ClientChannel).sendFinishingSession
+//@ func (*ClientChannel).sendFinishingSession :: (c, ctx) (result)
 //@   props C08
 //@   requires cliOK(c) && c.transport.nRecv > 0
 //@   modifies c.transport.nSent, c.transport.lastSent, c.transport.nSentSes, c.transport.lastSes, c.transport.connected, c.transport.stage, c.transport.offerEnc, c.transport.offerComp, c.transport.offerSchemes, c.transport.confEnc, c.transport.confComp
 //@   ensures cliOK(c)  ## in particular: the receiver can still be spawned (streams open) as long as it has not been
 
-//@ func (*ClientChannel).FinishSession
+//@ func (*ClientChannel).FinishSession :: (c, ctx) (result0, result1)
 //@   props C08
 //@   ensures c.startRcv.fired && !old(c.startRcv.fired) ==> step(c.state) >= 3
 //@   ensures c.transport.nRecv >= old(c.transport.nRecv)
@@ -1990,7 +1990,7 @@ func lemmaForwardSession(raw *rawEnvelope) (e *Session, e3 *Session, accepted bo
 //@   modifies nothing
 //@   ensures result != nil
 
-//@ func (*ClientChannel).EstablishSession
+//@ func (*ClientChannel).EstablishSession :: (c, ctx, compSelector, encryptSelector, identity, authenticator, instance) (result0, result1)
 //@   props C08 C09
 //@   requires cliOK(c) && c.transport.nRecv == 0
 //@   oncall [C09] (*ClientChannel).receiveSessionFromServer : synced(c.channel) && recvSes(c.channel).State == SessionStateNegotiating ==> (recvSes(c.channel).Encryption != "" ==> c.transport.enc == recvSes(c.channel).Encryption) && (recvSes(c.channel).Compression != "" ==> c.transport.comp == recvSes(c.channel).Compression)  ## the client has switched to every option the server confirmed before it exchanges anything else
@@ -2010,7 +2010,7 @@ func lemmaForwardSession(raw *rawEnvelope) (e *Session, e3 *Session, accepted bo
 //@   ensures @started c.startRcv.fired && !old(c.startRcv.fired) ==> step(c.state) >= 3
 //@   ensures cliOK(c)  ## in particular: the receiver can still be spawned (streams open) as long as it has not been
 
-//@ func newChannel
+//@ func newChannel :: (t, bufferSize) (result)
 //@   props C06 C08
 //@   panics only-if t == nil || payloadnil(t)
 //@   modifies nothing
@@ -2019,7 +2019,7 @@ func lemmaForwardSession(raw *rawEnvelope) (e *Session, e3 *Session, accepted bo
 //@   ensures !result.startRcv.fired && !result.stopRcv.fired
 //@   ensures [C06] @streamsopen rcvReady(result)
 
-//@ func NewClientChannel
+//@ func NewClientChannel :: (t, bufferSize) (result)
 //@   props C08
 //@   panics only-if t == nil || payloadnil(t)
 //@   modifies nothing
@@ -2030,7 +2030,7 @@ func lemmaForwardSession(raw *rawEnvelope) (e *Session, e3 *Session, accepted bo
 //@   ensures err == nil ==> t != nil && !payloadnil(t) && fresh(t) && t.nRecv == 0 && t.nSent == 0
 //@   note the transport factory returns a fresh, unused connection (or an error)
 
-//@ func (*Client).buildChannel
+//@ func (*Client).buildChannel :: (c, ctx) (result0, result1)
 //@   props C08
 //@   requires c != nil && c.config != nil && ctx != nil
 //@   requires c.config.NewTransport != nil && c.config.Authenticator != nil && c.config.CompSelector != nil && c.config.EncryptSelector != nil
@@ -2069,22 +2069,22 @@ func lemmaForwardSession(raw *rawEnvelope) (e *Session, e3 *Session, accepted bo
 //@ spec fn order(prev int, s *Session) bool = sesStage(s) >= 1 && prev < 5 && (sesStage(s) > prev || (sesStage(s) == 3 && prev == 3 && s.Authentication != nil)) && (sesStage(s) == 2 ==> prev == 1)
 
 // Server-side obligations on every session envelope written (statement of C07).
-//@ func (*channel).sendSession
+//@ func (*channel).sendSession :: (c, ctx, ses) (result)
 //@   requires [C07] @order !c.client && transportOK(c) && c.state != SessionStateFinished && c.state != SessionStateFailed ==> order(effStage(c.transport), ses)
 //@   requires [C07] @idfrom !c.client ==> ses.ID == c.sessionID && ses.From == c.localNode
 
-//@ func (*Identity).IsComplete
+//@ func (*Identity).IsComplete :: (i) (result)
 //@   props C07
 //@   requires i != nil
 //@   ensures result == (i.Name != "" && i.Domain != "")
 //@   modifies nothing
-//@ func (*Node).IsComplete
+//@ func (*Node).IsComplete :: (n) (result)
 //@   props C07
 //@   requires n != nil
 //@   ensures result == (n.Name != "" && n.Domain != "" && n.Instance != "")
 //@   modifies nothing
 
-//@ func NewServerChannel
+//@ func NewServerChannel :: (t, bufferSize, serverNode, sessionID) (result)
 //@   props C07 C17
 //@   panics only-if t == nil || payloadnil(t) || sessionID == "" || serverNode.Name == "" || serverNode.Domain == "" || serverNode.Instance == ""
 //@   modifies nothing
@@ -2093,7 +2093,7 @@ func lemmaForwardSession(raw *rawEnvelope) (e *Session, e3 *Session, accepted bo
 //@   ensures !result.startRcv.fired && !result.stopRcv.fired
 //@   ensures [C06] @streamsopen rcvReady(result.channel)
 
-//@ func (*ServerChannel).receiveNewSession
+//@ func (*ServerChannel).receiveNewSession :: (c, ctx) (result0, result1)
 //@   props C03 C07 C14
 //@   requires srvOK(c)
 //@   panics only-if ctx == nil
@@ -2105,7 +2105,7 @@ func lemmaForwardSession(raw *rawEnvelope) (e *Session, e3 *Session, accepted bo
 
 //@ spec fn sendGhosts(c *ServerChannel) bool = true
 
-//@ func (*ServerChannel).FailSession
+//@ func (*ServerChannel).FailSession :: (c, ctx, reason) (result)
 //@   props C03 C07 C14
 //@   requires srvInv(c)
 //@   modifies c.state, c.startRcv.fired, c.stopRcv.fired, c.transport.nSent, c.transport.lastSent, c.transport.nSentSes, c.transport.lastSes, c.transport.connected, c.transport.stage, c.transport.offerEnc, c.transport.offerComp, c.transport.offerSchemes, c.transport.confEnc, c.transport.confComp, c.cancel
@@ -2117,7 +2117,7 @@ func lemmaForwardSession(raw *rawEnvelope) (e *Session, e3 *Session, accepted bo
 //@   ensures c.transport.connected ==> old(c.transport.connected)
 //@   ensures c.transport.nSentSes == old(c.transport.nSentSes) || (c.transport.nSentSes == old(c.transport.nSentSes) + 1 && c.transport.stage == 6)
 
-//@ func (*ServerChannel).FinishSession
+//@ func (*ServerChannel).FinishSession :: (c, ctx) (result)
 //@   props C07 C14
 //@   requires srvInv(c)
 //@   modifies c.state, c.startRcv.fired, c.stopRcv.fired, c.transport.nSent, c.transport.lastSent, c.transport.nSentSes, c.transport.lastSes, c.transport.connected, c.transport.stage, c.transport.offerEnc, c.transport.offerComp, c.transport.offerSchemes, c.transport.confEnc, c.transport.confComp, c.cancel
@@ -2142,7 +2142,7 @@ func lemmaForwardSession(raw *rawEnvelope) (e *Session, e3 *Session, accepted bo
 //@ spec fn encPair(a interface{}, b interface{}) bool = istype(a, []SessionEncryption) && istype(b, []SessionEncryption)
 //@ spec fn compPair(a interface{}, b interface{}) bool = istype(a, []SessionCompression) && istype(b, []SessionCompression)
 
-//@ func contains
+//@ func contains :: (a, e) (result)
 //@   props C09 C10
 //@   requires istype(a, []SessionEncryption) || istype(a, []SessionCompression)
 //@   modifies nothing
@@ -2152,7 +2152,7 @@ func lemmaForwardSession(raw *rawEnvelope) (e *Session, e3 *Session, accepted bo
 //@   ensures [C09,C10] @membership istype(a, []SessionEncryption) && istype(e, SessionEncryption) ==> result == inset(elems(a.([]SessionEncryption)), e.(SessionEncryption))
 //@   ensures [C09,C10] @membershipcomp istype(a, []SessionCompression) && istype(e, SessionCompression) ==> result == inset(elems(a.([]SessionCompression)), e.(SessionCompression))
 
-//@ func intersect
+//@ func intersect :: (a, b) (result)
 //@   props C09 C10
 //@   requires encPair(a, b) || compPair(a, b)
 //@   modifies nothing
@@ -2182,7 +2182,7 @@ func lemmaForwardSession(raw *rawEnvelope) (e *Session, e3 *Session, accepted bo
 
 //@ spec fn firstWordOK(c *ServerChannel) bool = c.transport.nRecv > 0 && istype(c.transport.lastRecv, *Session) && recvSes(c.channel) != nil && recvSes(c.channel).State == SessionStateNew && recvSes(c.channel).ID == ""
 
-//@ func (*ServerChannel).sendNegotiatingOptionsSession
+//@ func (*ServerChannel).sendNegotiatingOptionsSession :: (c, ctx, compOptions, encryptOptions) (result0, result1)
 //@   props C07 C09
 //@   requires srvInv(c)
 //@   requires [C07] @clientword c.state == SessionStateNew && effStage(c.transport) == 0 && firstWordOK(c)
@@ -2194,7 +2194,7 @@ func lemmaForwardSession(raw *rawEnvelope) (e *Session, e3 *Session, accepted bo
 //@   ensures c.state == SessionStateNew || c.state == SessionStateNegotiating
 //@   ensures c.transport.connected ==> old(c.transport.connected)
 
-//@ func (*ServerChannel).sendNegotiatingConfirmationSession
+//@ func (*ServerChannel).sendNegotiatingConfirmationSession :: (c, ctx, comp, encrypt) (result)
 //@   props C07 C09
 //@   requires srvInv(c)
 //@   requires [C07] @clientword c.state == SessionStateNegotiating ==> c.transport.nSentSes > 0 && c.transport.stage == 1 && istype(c.transport.lastRecv, *Session) && recvSes(c.channel).State == SessionStateNegotiating && recvSes(c.channel).ID == c.sessionID
@@ -2207,7 +2207,7 @@ func lemmaForwardSession(raw *rawEnvelope) (e *Session, e3 *Session, accepted bo
 //@   ensures srvInv(c)
 //@   ensures c.transport.connected ==> old(c.transport.connected)
 
-//@ func (*ServerChannel).negotiateSession
+//@ func (*ServerChannel).negotiateSession :: (c, ctx, compOpts, encryptOpts) (result)
 //@   props C07 C09 C10
 //@   requires srvInv(c)
 //@   requires [C07] @clientword c.state == SessionStateNew && effStage(c.transport) == 0 && firstWordOK(c)
@@ -2225,7 +2225,7 @@ func lemmaForwardSession(raw *rawEnvelope) (e *Session, e3 *Session, accepted bo
 //@ spec fn authWordOK(c *ServerChannel) bool = (c.state == SessionStateNew ==> effStage(c.transport) == 0 && firstWordOK(c)) && (c.state == SessionStateNegotiating ==> c.transport.nSentSes > 0 && c.transport.stage == 2)
 //@ spec fn switched(c *ServerChannel) bool = c.state == SessionStateNegotiating ==> c.transport.enc == c.transport.confEnc && c.transport.comp == c.transport.confComp
 
-//@ func (*ServerChannel).sendAuthenticatingSession
+//@ func (*ServerChannel).sendAuthenticatingSession :: (c, ctx, schemeOpts) (result0, result1)
 //@   props C03 C07 C09 C10
 //@   requires srvInv(c)
 //@   requires [C07] @clientword (c.state == SessionStateNew || c.state == SessionStateNegotiating) ==> authWordOK(c)
@@ -2238,7 +2238,7 @@ func lemmaForwardSession(raw *rawEnvelope) (e *Session, e3 *Session, accepted bo
 //@   ensures c.state == old(c.state) || c.state == SessionStateAuthenticating
 //@   ensures c.transport.connected ==> old(c.transport.connected)
 
-//@ func (*ServerChannel).sendAuthenticatingRoundTripSession
+//@ func (*ServerChannel).sendAuthenticatingRoundTripSession :: (c, ctx, roundTrip) (result0, result1)
 //@   props C03 C07 C10
 //@   requires srvInv(c)
 //@   requires [C07] @clientword c.state == SessionStateAuthenticating ==> c.transport.nSentSes > 0 && c.transport.stage == 3 && istype(c.transport.lastRecv, *Session) && recvSes(c.channel).State == SessionStateAuthenticating && recvSes(c.channel).ID == c.sessionID
@@ -2250,7 +2250,7 @@ func lemmaForwardSession(raw *rawEnvelope) (e *Session, e3 *Session, accepted bo
 //@   ensures srvInv(c)
 //@   ensures c.transport.connected ==> old(c.transport.connected)
 
-//@ func (*ServerChannel).sendEstablishedSession
+//@ func (*ServerChannel).sendEstablishedSession :: (c, ctx, node) (result)
 //@   props C03 C07 C10
 //@   requires srvInv(c)
 //@   requires [C03] @evidence authEvidence(c, node)
@@ -2264,7 +2264,7 @@ func lemmaForwardSession(raw *rawEnvelope) (e *Session, e3 *Session, accepted bo
 //@   ensures srvInv(c) && step(c.state) >= step(old(c.state))
 //@   ensures c.transport.connected ==> old(c.transport.connected)
 
-//@ func (*ServerChannel).authenticateSession
+//@ func (*ServerChannel).authenticateSession :: (c, ctx, schemeOpts, authenticate, register) (result)
 //@   props C03 C07 C09 C10 C14
 //@   requires srvInv(c) && authenticate != nil && register != nil && (c.state == SessionStateNew || c.state == SessionStateNegotiating) && !c.startRcv.fired
 //@   requires [C07] @clientword (c.state == SessionStateNew || c.state == SessionStateNegotiating) ==> authWordOK(c)
@@ -2289,7 +2289,7 @@ func lemmaForwardSession(raw *rawEnvelope) (e *Session, e3 *Session, accepted bo
 //@   ensures c.state != SessionStateEstablished ==> c.startRcv.fired == old(c.startRcv.fired)
 //@   ensures c.transport.connected ==> old(c.transport.connected)
 
-//@ func (*ServerChannel).EstablishSession
+//@ func (*ServerChannel).EstablishSession :: (c, ctx, compOpts, encryptOpts, schemeOpts, authenticate, register) (result)
 //@   props C03 C07 C09 C10 C14
 //@   requires srvInv(c) && c.state == SessionStateNew && effStage(c.transport) == 0 && !c.startRcv.fired
 //@   entry-ghost c.cfgEnc = elems(encryptOpts)
@@ -2307,13 +2307,13 @@ func lemmaForwardSession(raw *rawEnvelope) (e *Session, e3 *Session, accepted bo
 
 // ---- C14: every connection that fails to establish is released ---------------
 
-//@ func (*channel).Established
+//@ func (*channel).Established :: (c) (result)
 //@   props C06 C14
 //@   requires c != nil && c.transport != nil
 //@   ensures result == (c.state == SessionStateEstablished && c.transport.connected)
 //@   modifies nothing
 
-//@ func (*channel).Close
+//@ func (*channel).Close :: (c) (result)
 //@   props C14
 //@   requires c != nil && c.transport != nil
 //@   modifies c.stopRcv.fired, c.transport.connected, c.cancel
@@ -2321,7 +2321,7 @@ func lemmaForwardSession(raw *rawEnvelope) (e *Session, e3 *Session, accepted bo
 
 // The dispatch loop runs handlers and overlaps with the receiver goroutine:
 // everything those may change is declared modified (sequential soundness).
-//@ func (*EnvelopeMux).ListenServer
+//@ func (*EnvelopeMux).ListenServer :: (m, ctx, c) (result)
 //@   props C14 C20
 //@   requires m != nil && srvInv(c)
 //@   modifies c.state, c.startRcv.fired, c.stopRcv.fired, c.transport.nRecv, c.transport.lastRecv, recvClock, c.transport.connected, c.transport.nSent, c.transport.lastSent, c.transport.nSentSes, c.transport.lastSes, c.transport.stage, c.transport.offerEnc, c.transport.offerComp, c.transport.offerSchemes, c.transport.confEnc, c.transport.confComp, c.cancel
@@ -2338,7 +2338,7 @@ func lemmaForwardSession(raw *rawEnvelope) (e *Session, e3 *Session, accepted bo
 //@   modifies finN, finID
 //@   ensures finN == old(finN) + 1 && finID == sessionID
 
-//@ func (*Server).handleChannel
+//@ func (*Server).handleChannel :: (srv, ctx, c) ()
 //@   props C14
 //@   requires srv != nil && srv.config != nil && srv.mux != nil && ctx != nil
 //@   requires srvInv(c) && c.state == SessionStateNew && effStage(c.transport) == 0 && !c.startRcv.fired
@@ -2364,7 +2364,7 @@ func lemmaForwardSession(raw *rawEnvelope) (e *Session, e3 *Session, accepted bo
 //@   monitor processingCmdsMu protects processingCmds mapinv v != nil && chankey(v) == k
 //@   chaninv processingCmds.elem : v != nil && v.ID == chankey(ch)  ## a reply channel taken from the table only carries the response with the table key's id
 
-//@ func (*channel).sendToTransport
+//@ func (*channel).sendToTransport :: (c, ctx, e, action) (result)
 //@   props C04 C06
 //@   requires c != nil && (e != nil ==> isKind(e))
 //@   panics only-if e == nil || payloadnil(e)
@@ -2374,7 +2374,7 @@ func lemmaForwardSession(raw *rawEnvelope) (e *Session, e3 *Session, accepted bo
 //@   ensures [C06] @nothingemitted result != nil ==> c.transport.nSent == old(c.transport.nSent) && c.transport.lastSent == old(c.transport.lastSent)
 //@   ensures [C04] @onceunchanged result == nil ==> c.transport.nSent == old(c.transport.nSent) + 1 && c.transport.lastSent == e
 
-//@ func (*channel).SendMessage
+//@ func (*channel).SendMessage :: (c, ctx, msg) (result)
 //@   props C04 C06
 //@   requires c != nil
 //@   panics only-if msg == nil
@@ -2383,7 +2383,7 @@ func lemmaForwardSession(raw *rawEnvelope) (e *Session, e3 *Session, accepted bo
 //@   ensures [C06] result != nil ==> c.transport.nSent == old(c.transport.nSent)
 //@   ensures [C04] result == nil ==> c.transport.nSent == old(c.transport.nSent) + 1 && istype(c.transport.lastSent, *Message) && c.transport.lastSent.(*Message) == msg
 
-//@ func (*channel).SendNotification
+//@ func (*channel).SendNotification :: (c, ctx, not) (result)
 //@   props C04 C06
 //@   requires c != nil
 //@   panics only-if not == nil
@@ -2392,7 +2392,7 @@ func lemmaForwardSession(raw *rawEnvelope) (e *Session, e3 *Session, accepted bo
 //@   ensures [C06] result != nil ==> c.transport.nSent == old(c.transport.nSent)
 //@   ensures [C04] result == nil ==> c.transport.nSent == old(c.transport.nSent) + 1 && istype(c.transport.lastSent, *Notification) && c.transport.lastSent.(*Notification) == not
 
-//@ func (*channel).SendRequestCommand
+//@ func (*channel).SendRequestCommand :: (c, ctx, cmd) (result)
 //@   props C04 C05 C06
 //@   requires c != nil
 //@   panics only-if cmd == nil
@@ -2401,7 +2401,7 @@ func lemmaForwardSession(raw *rawEnvelope) (e *Session, e3 *Session, accepted bo
 //@   ensures [C06] result != nil ==> c.transport.nSent == old(c.transport.nSent)
 //@   ensures [C04] result == nil ==> c.transport.nSent == old(c.transport.nSent) + 1 && istype(c.transport.lastSent, *RequestCommand) && c.transport.lastSent.(*RequestCommand) == cmd
 
-//@ func (*channel).SendResponseCommand
+//@ func (*channel).SendResponseCommand :: (c, ctx, cmd) (result)
 //@   props C04 C06
 //@   requires c != nil
 //@   panics only-if cmd == nil
@@ -2417,18 +2417,18 @@ func lemmaForwardSession(raw *rawEnvelope) (e *Session, e3 *Session, accepted bo
 //@   modifies nothing
 //@   note the sender used by processCommand is the channel itself (ProcessCommand); its effect on the transport is verified as (*channel).SendRequestCommand
 
-//@ func (*channel).processCommand
+//@ func (*channel).processCommand :: (c, ctx, sender, reqCmd) (result0, result1)
 //@   props C05
 //@   requires c != nil && sender != nil && c.processingCmds != nil && ctx != nil
 //@   panics only-if reqCmd == nil || reqCmd.ID == ""
 //@   modifies *c.processingCmds
-//@   ghostinit respChan : chankey(respChan) == reqCmd.ID && neverclosed(respChan)
-//@   chaninv-local respChan : v != nil && v.ID == chankey(ch)
+//@   ghostinit anychan.ResponseCommand : chankey(v) == reqCmd.ID && neverclosed(v)  ## the reply channel this call creates (whatever the variable is called)
+//@   chaninv-local anychan.ResponseCommand : v != nil && v.ID == chankey(ch)
 //@   ensures [C05] @ownresponse err == nil ==> result0 != nil && result0.ID == reqCmd.ID
 //@   checks [C05] @duprejected inset(domatlock(channel.processingCmds), reqCmd.ID) ==> err != nil && tablewrites(channel.processingCmds) == 0
 //@   checks [C05] @reusable !inset(domatlock(channel.processingCmds), reqCmd.ID) ==> !inset(domatunlock(channel.processingCmds), reqCmd.ID)
 
-//@ func (*channel).trySubmitCommandResult
+//@ func (*channel).trySubmitCommandResult :: (c, respCmd) (result)
 //@   props C04 C05
 //@   requires c != nil && c.processingCmds != nil
 //@   modifies *c.processingCmds
@@ -2436,7 +2436,7 @@ func lemmaForwardSession(raw *rawEnvelope) (e *Session, e3 *Session, accepted bo
 //@   checks [C05] @sentonlywhenmatched !result ==> nsent(channel.processingCmds.elem) == 0
 //@   ensures [C05] result ==> respCmd != nil
 
-//@ func (*channel).ProcessCommand
+//@ func (*channel).ProcessCommand :: (c, ctx, reqCmd) (result0, result1)
 //@   props C05
 //@   requires c != nil && c.processingCmds != nil && ctx != nil
 //@   panics only-if reqCmd == nil || reqCmd.ID == ""
@@ -2448,7 +2448,7 @@ func lemmaForwardSession(raw *rawEnvelope) (e *Session, e3 *Session, accepted bo
 //@ spec fn streamsOpen(c *channel, done chan<- struct{}) bool = done != nil && c.inMsgChan != nil && c.inNotChan != nil && c.inReqCmdChan != nil && c.inRespCmdChan != nil && c.inSesChan != nil && !closed(done) && !closed(c.inMsgChan) && !closed(c.inNotChan) && !closed(c.inReqCmdChan) && !closed(c.inRespCmdChan) && !closed(c.inSesChan)
 //@ spec fn onlyOn(m int, n int, q int, p int, s int) bool = nsent(channel.inMsgChan) == m && nsent(channel.inNotChan) == n && nsent(channel.inReqCmdChan) == q && nsent(channel.inRespCmdChan) == p && nsent(channel.inSesChan) == s
 
-//@ func receiveFromTransport
+//@ func receiveFromTransport :: (ctx, c, done) ()
 //@   props C04 C05 C06
 //@   requires c != nil && ctx != nil && c.transport != nil && !payloadnil(c.transport) && c.processingCmds != nil && streamsOpen(c, done)
 //@   modifies c.state, c.transport.nRecv, c.transport.lastRecv, recvClock, c.transport.connected, *c.processingCmds, closed(done), closed(c.inMsgChan), closed(c.inNotChan), closed(c.inReqCmdChan), closed(c.inRespCmdChan), closed(c.inSesChan)
@@ -2476,7 +2476,7 @@ func lemmaForwardSession(raw *rawEnvelope) (e *Session, e3 *Session, accepted bo
 //@ census [C03,C07] callers (*channel).setStateWLock : (*channel).setState, receiveFromTransport
 //@ census [C03,C07] callers (*channel).setState : (*ServerChannel).sendNegotiatingOptionsSession, (*ServerChannel).sendAuthenticatingSession, (*ServerChannel).sendEstablishedSession, (*ServerChannel).FinishSession, (*ServerChannel).FailSession, (*ClientChannel).receiveSessionFromServer
 
-//@ func (*channel).setState
+//@ func (*channel).setState :: (c, state) ()
 //@   onref [C06] (*channel).startReceiver : state == SessionStateEstablished
 
 // ---------------------------------------------------------------------------
@@ -2487,7 +2487,7 @@ func lemmaForwardSession(raw *rawEnvelope) (e *Session, e3 *Session, accepted bo
 // order, and every byte Read reports was read from it.
 // ---------------------------------------------------------------------------
 
-//@ func (*ctxConn).Write
+//@ func (*ctxConn).Write :: (c, b) (n, err)
 //@   props C04 C12
 //@   requires c != nil && c.conn != nil && c.writeCtx != nil
 //@   modifies c.conn.wcount
@@ -2497,7 +2497,7 @@ func lemmaForwardSession(raw *rawEnvelope) (e *Session, e3 *Session, accepted bo
 //@   ensures [C04,C12] @shortimplieserr n < len(b) ==> err != nil
 //@   ensures 0 <= n && n <= len(b)
 
-//@ func (*ctxConn).Read
+//@ func (*ctxConn).Read :: (c, b) (n, err)
 //@   props C04 C12
 //@   requires c != nil && c.conn != nil && c.readCtx != nil
 //@   modifies c.conn.rcount
@@ -2512,20 +2512,20 @@ func lemmaForwardSession(raw *rawEnvelope) (e *Session, e3 *Session, accepted bo
 
 //@ spec fn tcpInv(t *tcpTransport) bool = t != nil && t.ReadLimit > 0 && 0 <= t.limitedReader.N && t.limitedReader.N <= t.ReadLimit && t.decoder != nil && t.encoder != nil && t.ctxConn != nil && t.ctxConn.conn != nil && istype(t.decoder.src, *io.LimitedReader) && t.decoder.src.(*io.LimitedReader) == &t.limitedReader
 
-//@ func NewCtxConn
+//@ func NewCtxConn :: (conn, readTimeout, writeTimeout) (result)
 //@   props C12 C16
 //@   panics only-if conn == nil
 //@   modifies nothing
 //@   ensures result != nil && fresh(result) && result.conn == conn && result.readCtx != nil && result.writeCtx != nil
 
-//@ func (*ctxConn).SetReadContext
+//@ func (*ctxConn).SetReadContext :: (c, ctx) ()
 //@   props C12
 //@   requires c != nil
 //@   panics only-if ctx == nil
 //@   modifies c.readCtx, c.readCancel
 //@   ensures c.readCtx == ctx
 
-//@ func (*ctxConn).SetWriteContext
+//@ func (*ctxConn).SetWriteContext :: (c, ctx) ()
 //@   props C12
 //@   requires c != nil
 //@   panics only-if ctx == nil
@@ -2535,19 +2535,19 @@ func lemmaForwardSession(raw *rawEnvelope) (e *Session, e3 *Session, accepted bo
 //@ callback role ctxCancel() () : field ctxConn.readCancel, field ctxConn.writeCancel
 //@   modifies nothing
 
-//@ func (*tcpTransport).Connected
+//@ func (*tcpTransport).Connected :: (t) (result)
 //@   props C12 C16
 //@   requires t != nil
 //@   ensures result == (t.conn != nil && !t.eof)
 //@   modifies nothing
 
-//@ func (*tcpTransport).ensureOpen
+//@ func (*tcpTransport).ensureOpen :: (t) (result)
 //@   props C12 C16
 //@   requires t != nil
 //@   ensures (result == nil) == (t.conn != nil && !t.eof)
 //@   modifies nothing
 
-//@ func (*tcpTransport).setConn
+//@ func (*tcpTransport).setConn :: (t, conn) ()
 //@   props C16
 //@   requires t != nil && conn != nil && t.ReadLimit >= 0
 //@   modifies t.conn, t.ctxConn, t.encoder, t.decoder, t.limitedReader, t.ReadLimit, t.limitedReader.consumed
@@ -2556,7 +2556,7 @@ func lemmaForwardSession(raw *rawEnvelope) (e *Session, e3 *Session, accepted bo
 //@   ensures [C16] @keptlimit old(t.ReadLimit) != 0 ==> t.ReadLimit == old(t.ReadLimit)
 //@   ensures t.conn == conn
 
-//@ func (*tcpTransport).Receive
+//@ func (*tcpTransport).Receive :: (t, ctx) (result0, result1)
 //@   props C01 C09 C12 C16
 //@   requires tcpInv(t)
 //@   panics only-if ctx == nil
@@ -2571,7 +2571,7 @@ func lemmaForwardSession(raw *rawEnvelope) (e *Session, e3 *Session, accepted bo
 //@   ensures [C12] @monotone t.conn != nil && !t.eof ==> old(t.conn != nil && !t.eof)  ## Transport model: a transport never becomes connected again
 //@   ensures tcpInv(t)
 
-//@ func (*tcpTransport).Send
+//@ func (*tcpTransport).Send :: (t, ctx, e) (result)
 //@   props C04 C09 C12
 //@   requires t != nil && (t.conn != nil && !t.eof ==> t.encoder != nil && t.ctxConn != nil)
 //@   panics only-if ctx == nil || e == nil || payloadnil(e)
@@ -2581,20 +2581,20 @@ func lemmaForwardSession(raw *rawEnvelope) (e *Session, e3 *Session, accepted bo
 //@   ensures [C09,C12] @stillopen result == nil ==> t.conn != nil && !t.eof  ## Transport model: a successful Send leaves the transport connected
 //@   ensures [C12] @monotone t.conn != nil && !t.eof ==> old(t.conn != nil && !t.eof)
 
-//@ func (*tcpTransport).Encryption
+//@ func (*tcpTransport).Encryption :: (t) (result)
 //@   props C09 C10
 //@   requires t != nil
 //@   modifies nothing
 //@   ensures result == t.encryption
 
-//@ func (*tcpTransport).SupportedEncryption
+//@ func (*tcpTransport).SupportedEncryption :: (t) (result)
 //@   props C09 C10
 //@   modifies nothing
 //@   ensures [C09] fresh(result) && len(result) == 2 && result[0] == SessionEncryptionNone && result[1] == SessionEncryptionTLS
 
 // SetEncryption against the Transport model (t.enc is t.encryption, t.connected is
 // t.conn != nil && !t.eof): the option reported in force is the one asked for.
-//@ func (*tcpTransport).SetEncryption
+//@ func (*tcpTransport).SetEncryption :: (t, ctx, e) (result)
 //@   props C09 C10 C16
 //@   requires t != nil && ctx != nil && t.conn != nil && !t.eof && t.ReadLimit >= 0
 //@   modifies t.conn, t.ctxConn, t.encoder, t.decoder, t.limitedReader, t.ReadLimit, t.limitedReader.consumed, t.encryption
@@ -2613,13 +2613,13 @@ func lemmaForwardSession(raw *rawEnvelope) (e *Session, e3 *Session, accepted bo
 //@ spec fn tcpNew(t *tcpTransport, limit int64) bool = tcpInv(t) && t.limitedReader.N == t.ReadLimit && t.ReadLimit == ite(limit == 0, DefaultReadLimit, limit) && t.encryption == SessionEncryptionNone && !t.eof
 //@ globalinv defaultTCPConfig.ReadLimit == 0
 
-//@ func (*tcpTransportListener).ensureStarted
+//@ func (*tcpTransportListener).ensureStarted :: (l) (result)
 //@   props C16
 //@   requires l != nil
 //@   modifies nothing
 //@   ensures (result == nil) == (l.listener != nil)
 
-//@ func (*tcpTransportListener).Accept
+//@ func (*tcpTransportListener).Accept :: (l, ctx) (result0, result1)
 //@   props C09 C16
 //@   requires l != nil && ctx != nil && l.ReadLimit >= 0
 //@   modifies nothing
@@ -2627,19 +2627,19 @@ func lemmaForwardSession(raw *rawEnvelope) (e *Session, e3 *Session, accepted bo
 //@   ensures [C09] @serverside result1 == nil ==> result0.(*tcpTransport).server
 //@   ensures result1 != nil ==> result0 == nil
 
-//@ func (*tcpTransportListener).serve
+//@ func (*tcpTransportListener).serve :: (l, listener) ()
 //@   props C16
 //@   requires l != nil && listener != nil && l.connChan != nil && l.done != nil && !closed(l.connChan)
 //@   modifies closed(l.connChan)
 //@   loop 0 invariant l.connChan != nil && l.done != nil && listener != nil && !closed(l.connChan) && l.connChan == old(l.connChan)
 
-//@ func (*tcpTransportListener).Listen
+//@ func (*tcpTransportListener).Listen :: (l, ctx, addr) (result)
 //@   props C16
 //@   requires l != nil && ctx != nil && addr != nil && l.ConnBuffer >= 0
 //@   modifies l.listener, l.done, l.connChan
 //@   ensures result == nil ==> l.listener != nil && l.connChan != nil && l.done != nil
 
-//@ func DialTcp
+//@ func DialTcp :: (ctx, addr, config) (result0, result1)
 //@   props C09 C16
 //@   requires ctx != nil && addr != nil && (config != nil ==> config.ReadLimit >= 0)
 //@   modifies nothing
@@ -2647,14 +2647,14 @@ func lemmaForwardSession(raw *rawEnvelope) (e *Session, e3 *Session, accepted bo
 //@   ensures [C09] @clientside result1 == nil ==> !result0.(*tcpTransport).server
 //@   ensures result1 != nil ==> result0 == nil
 
-//@ func (*tcpTransport).Close
+//@ func (*tcpTransport).Close :: (t) (result)
 //@   props C12
 //@   requires t != nil && (t.conn != nil && !t.eof ==> t.ctxConn != nil && t.ctxConn.conn != nil)
 //@   modifies t.conn
 //@   ensures t.conn == nil || result != nil
 //@   ensures !(t.conn != nil && !t.eof)
 
-//@ func (*ctxConn).Close
+//@ func (*ctxConn).Close :: (c) (result)
 //@   props C12
 //@   requires c != nil && c.conn != nil
 //@   modifies nothing
@@ -2670,7 +2670,7 @@ func lemmaForwardSession(raw *rawEnvelope) (e *Session, e3 *Session, accepted bo
 //@   chaninv envChan : v != nil && !payloadnil(v) && isKind(v)
 //@ census [C04] closers chan envelope : none  ## queues of envelopes are never closed, so a receive from one always yields a value that was sent
 
-//@ func (*inProcessTransport).Connected
+//@ func (*inProcessTransport).Connected :: (t) (result)
 //@   props C04 C14
 //@   requires t != nil
 //@   modifies nothing
@@ -2685,7 +2685,7 @@ func lemmaForwardSession(raw *rawEnvelope) (e *Session, e3 *Session, accepted bo
 //@   ensures [C04] @closedrefuses t.closed ==> result != nil
 //@   ensures [C04] @stillopen result == nil ==> !t.closed
 
-//@ func (*inProcessTransport).Receive
+//@ func (*inProcessTransport).Receive :: (t, ctx) (result0, result1)
 //@   props C04 C14
 //@   requires inprocPair(t) && ctx != nil && neverclosed(t.envChan)
 //@   modifies nothing
@@ -2695,20 +2695,20 @@ func lemmaForwardSession(raw *rawEnvelope) (e *Session, e3 *Session, accepted bo
 //@   ensures [C14] @closedrefuses t.closed ==> result1 != nil
 //@   ensures [C04] @stillopen result1 == nil ==> !t.closed
 
-//@ func (*inProcessTransport).Close
+//@ func (*inProcessTransport).Close :: (t) (result)
 //@   props C14
 //@   requires inprocPair(t)
 //@   modifies t.closed, t.remote.closed
 //@   ensures [C14] @bothends t.closed && t.remote.closed
 //@   ensures result == nil
 
-//@ func newInProcessTransport
+//@ func newInProcessTransport :: (addr, bufferSize) (result)
 //@   props C04 C14
 //@   modifies nothing
 //@   panics only-if bufferSize < 0
 //@   ensures result != nil && fresh(result) && result.envChan != nil && result.done != nil && !result.closed && result.remote == nil && result.addr == addr
 
-//@ func newInProcessTransportPair
+//@ func newInProcessTransportPair :: (addr, bufferSize) (client, server)
 //@   props C04 C14
 //@   modifies nothing
 //@   panics only-if bufferSize < 0
@@ -2721,13 +2721,13 @@ func lemmaForwardSession(raw *rawEnvelope) (e *Session, e3 *Session, accepted bo
 // the same (*rawEnvelope).toEnvelope as the typed decoders), fixed options (C09).
 // ---------------------------------------------------------------------------
 
-//@ func (*websocketTransport).ensureOpen
+//@ func (*websocketTransport).ensureOpen :: (t) (result)
 //@   props C01 C04 C14
 //@   requires t != nil
 //@   modifies nothing
 //@   ensures (result == nil) == (t.conn != nil)
 
-//@ func (*websocketTransport).Connected
+//@ func (*websocketTransport).Connected :: (t) (result)
 //@   props C04 C14
 //@   requires t != nil
 //@   modifies nothing
@@ -2735,12 +2735,12 @@ func lemmaForwardSession(raw *rawEnvelope) (e *Session, e3 *Session, accepted bo
 
 //@ func (*websocketTransport).Send$1
 //@   props C04
-//@   requires t != nil && t.conn != nil && errChan != nil
+//@   requires t != nil && t.conn != nil
 //@   modifies nothing
 //@   oncall [C04] (*github.com/gorilla/websocket.Conn).WriteJSON : a_v == e
-//@   checks [C04] @onewrite ncalls("(*github.com/gorilla/websocket.Conn).WriteJSON") == 1 && nsent(local.errChan) == 1
+//@   checks [C04] @onewrite ncalls("(*github.com/gorilla/websocket.Conn).WriteJSON") == 1 && nsent(anychan.error) == 1
 
-//@ func (*websocketTransport).Send
+//@ func (*websocketTransport).Send :: (t, ctx, e) (result)
 //@   props C04
 //@   requires t != nil
 //@   panics only-if ctx == nil || e == nil || payloadnil(e)
@@ -2752,35 +2752,35 @@ func lemmaForwardSession(raw *rawEnvelope) (e *Session, e3 *Session, accepted bo
 
 //@ func (*websocketTransport).Receive$1
 //@   props C01 C04
-//@   requires t != nil && t.conn != nil && rawChan != nil && errChan != nil
+//@   requires t != nil && t.conn != nil
 //@   modifies nothing
-//@   checks [C04] @oneread ncalls("(*github.com/gorilla/websocket.Conn).ReadJSON[*rawEnvelope]") == 1 && nsent(local.rawChan) + nsent(local.errChan) == 1
-//@   checks [C04] @rawonlyonsuccess (nsent(local.rawChan) == 1) == (nerr("(*github.com/gorilla/websocket.Conn).ReadJSON[*rawEnvelope]") == 0)
+//@   checks [C04] @oneread ncalls("(*github.com/gorilla/websocket.Conn).ReadJSON[*rawEnvelope]") == 1 && nsent(anychan.rawEnvelope) + nsent(anychan.error) == 1
+//@   checks [C04] @rawonlyonsuccess (nsent(anychan.rawEnvelope) == 1) == (nerr("(*github.com/gorilla/websocket.Conn).ReadJSON[*rawEnvelope]") == 0)
 
-//@ func (*websocketTransport).Receive
+//@ func (*websocketTransport).Receive :: (t, ctx) (result0, result1)
 //@   props C01 C04
 //@   requires t != nil
 //@   panics only-if ctx == nil
 //@   modifies nothing
 //@   checks [C04] @onereader t.conn != nil ==> ngo("(*websocketTransport).Receive$1") == 1
 //@   checks [C04] @noreaderwhenclosed t.conn == nil ==> ngo("(*websocketTransport).Receive$1") == 0
-//@   checks [C01,C04] @decodedonce result1 == nil ==> ncalls("(*rawEnvelope).toEnvelope") == 1 && nrecv(local.rawChan) == 1
+//@   checks [C01,C04] @decodedonce result1 == nil ==> ncalls("(*rawEnvelope).toEnvelope") == 1 && nrecv(anychan.rawEnvelope) == 1
 //@   ensures [C01] @kinds result1 == nil ==> result0 != nil && !payloadnil(result0) && isKind(result0)
 //@   ensures [C04] @notopen t.conn == nil ==> result1 != nil
 //@   ensures [C04] @stillopen result1 == nil ==> t.conn != nil
 
-//@ func (*websocketTransport).Close
+//@ func (*websocketTransport).Close :: (t) (result)
 //@   props C14
 //@   requires t != nil
 //@   modifies t.conn
 //@   ensures [C14] @released t.conn == nil
 
-//@ func (*websocketTransport).Encryption
+//@ func (*websocketTransport).Encryption :: (t) (result)
 //@   props C09
 //@   requires t != nil
 //@   modifies nothing
 //@   ensures result == t.e
-//@ func (*websocketTransport).SupportedEncryption
+//@ func (*websocketTransport).SupportedEncryption :: (t) (result)
 //@   props C09
 //@   requires t != nil
 //@   modifies nothing
@@ -2790,12 +2790,12 @@ func lemmaForwardSession(raw *rawEnvelope) (e *Session, e3 *Session, accepted bo
 //@   requires t != nil
 //@   modifies nothing
 //@   ensures [C09] @inforce (result == nil) == (e == t.e)
-//@ func (*websocketTransport).Compression
+//@ func (*websocketTransport).Compression :: (t) (result)
 //@   props C09
 //@   requires t != nil
 //@   modifies nothing
 //@   ensures result == t.c
-//@ func (*websocketTransport).SupportedCompression
+//@ func (*websocketTransport).SupportedCompression :: (t) (result)
 //@   props C09
 //@   requires t != nil
 //@   modifies nothing
@@ -2807,11 +2807,11 @@ func lemmaForwardSession(raw *rawEnvelope) (e *Session, e3 *Session, accepted bo
 //@   ensures [C09] @inforce (result == nil) == (c == t.c)
 
 // The options of the other two transports (C09: what the connection supports)
-//@ func (*tcpTransport).Compression
+//@ func (*tcpTransport).Compression :: (t) (result)
 //@   props C09
 //@   modifies nothing
 //@   ensures result == SessionCompressionNone
-//@ func (*tcpTransport).SupportedCompression
+//@ func (*tcpTransport).SupportedCompression :: (t) (result)
 //@   props C09
 //@   modifies nothing
 //@   ensures [C09] fresh(result) && len(result) == 1 && result[0] == SessionCompressionNone
@@ -2819,27 +2819,27 @@ func lemmaForwardSession(raw *rawEnvelope) (e *Session, e3 *Session, accepted bo
 //@   props C09
 //@   modifies nothing
 //@   ensures [C09] result != nil
-//@ func (*inProcessTransport).Encryption
+//@ func (*inProcessTransport).Encryption :: (t) (result)
 //@   props C09
 //@   modifies nothing
 //@   ensures result == SessionEncryptionNone
-//@ func (*inProcessTransport).SupportedEncryption
+//@ func (*inProcessTransport).SupportedEncryption :: (t) (result)
 //@   props C09
 //@   modifies nothing
 //@   ensures [C09] fresh(result) && len(result) == 1 && result[0] == SessionEncryptionNone
-//@ func (*inProcessTransport).SetEncryption
+//@ func (*inProcessTransport).SetEncryption :: (t, arg1, arg2) (result)
 //@   props C09
 //@   modifies nothing
 //@   ensures [C09] result != nil
-//@ func (*inProcessTransport).Compression
+//@ func (*inProcessTransport).Compression :: (t) (result)
 //@   props C09
 //@   modifies nothing
 //@   ensures result == SessionCompressionNone
-//@ func (*inProcessTransport).SupportedCompression
+//@ func (*inProcessTransport).SupportedCompression :: (t) (result)
 //@   props C09
 //@   modifies nothing
 //@   ensures [C09] fresh(result) && len(result) == 1 && result[0] == SessionCompressionNone
-//@ func (*inProcessTransport).SetCompression
+//@ func (*inProcessTransport).SetCompression :: (t, arg1, arg2) (result)
 //@   props C09
 //@   modifies nothing
 //@   ensures [C09] result != nil
@@ -2864,61 +2864,61 @@ func lemmaForwardSession(raw *rawEnvelope) (e *Session, e3 *Session, accepted bo
 //@ spec fn ctxLocal(ctx context.Context) interface{} = ctxValue(ctx, box(contextKeySessionLocalNode))
 //@ spec fn ctxOf(ctx context.Context, c *channel) bool = istype(ctxSID(ctx), string) && ctxSID(ctx).(string) == c.sessionID && istype(ctxRemote(ctx), Node) && ctxRemote(ctx).(Node) == c.remoteNode && istype(ctxLocal(ctx), Node) && ctxLocal(ctx).(Node) == c.localNode
 
-//@ func sessionContext
+//@ func sessionContext :: (ctx, c) (result)
 //@   props C17
 //@   requires ctx != nil && c != nil
 //@   modifies nothing
 //@   ensures [C17] @identifies result != nil && ctxOf(result, c)
 
-//@ func ContextSessionID
+//@ func ContextSessionID :: (ctx) (result0, result1)
 //@   props C17
 //@   requires ctx != nil
 //@   modifies nothing
 //@   ensures [C17] result1 == istype(ctxSID(ctx), string)
 //@   ensures [C17] result1 ==> result0 == ctxSID(ctx).(string)
 
-//@ func ContextSessionRemoteNode
+//@ func ContextSessionRemoteNode :: (ctx) (result0, result1)
 //@   props C17
 //@   requires ctx != nil
 //@   modifies nothing
 //@   ensures [C17] result1 == istype(ctxRemote(ctx), Node)
 //@   ensures [C17] result1 ==> result0 == ctxRemote(ctx).(Node)
 
-//@ func ContextSessionLocalNode
+//@ func ContextSessionLocalNode :: (ctx) (result0, result1)
 //@   props C17
 //@   requires ctx != nil
 //@   modifies nothing
 //@   ensures [C17] result1 == istype(ctxLocal(ctx), Node)
 //@   ensures [C17] result1 ==> result0 == ctxLocal(ctx).(Node)
 
-//@ func (*channel).MsgChan
+//@ func (*channel).MsgChan :: (c) (result)
 //@   props C04 C17
 //@   requires c != nil
 //@   returns-chan channel.inMsgChan
 //@   modifies nothing
-//@ func (*channel).NotChan
+//@ func (*channel).NotChan :: (c) (result)
 //@   props C04 C17
 //@   requires c != nil
 //@   returns-chan channel.inNotChan
 //@   modifies nothing
-//@ func (*channel).ReqCmdChan
+//@ func (*channel).ReqCmdChan :: (c) (result)
 //@   props C04 C17
 //@   requires c != nil
 //@   returns-chan channel.inReqCmdChan
 //@   modifies nothing
-//@ func (*channel).RespCmdChan
+//@ func (*channel).RespCmdChan :: (c) (result)
 //@   props C04 C17
 //@   requires c != nil
 //@   returns-chan channel.inRespCmdChan
 //@   modifies nothing
-//@ func (*channel).RcvDone
+//@ func (*channel).RcvDone :: (c) (result)
 //@   props C04 C17
 //@   requires c != nil
 //@   modifies nothing
 
 //@ spec fn muxOK(m *EnvelopeMux) bool = m != nil && nonNilMsg(m.msgHandlers, 0) && nonNilNot(m.notHandlers, 0) && nonNilReqCmd(m.reqCmdHandlers, 0) && nonNilRespCmd(m.respCmdHandlers, 0)
 
-//@ func (*EnvelopeMux).listen
+//@ func (*EnvelopeMux).listen :: (m, ctx, c) (result)
 //@   props C04 C06 C17 C20
 //@   requires muxOK(m) && c != nil && ctx != nil && c.transport != nil
 //@   modifies ghosts
@@ -2944,7 +2944,7 @@ func lemmaForwardSession(raw *rawEnvelope) (e *Session, e3 *Session, accepted bo
 //@   ensures err == nil ==> t != nil && !payloadnil(t) && t.nSentSes == 0 && t.nRecv == 0
 //@   note a listener hands out connections on which nothing has been exchanged yet
 
-//@ func acceptTransports
+//@ func acceptTransports :: (ctx, listener, c) (result)
 //@   props C17
 //@   requires ctx != nil && listener != nil && c != nil
 //@   modifies nothing
@@ -2953,7 +2953,7 @@ func lemmaForwardSession(raw *rawEnvelope) (e *Session, e3 *Session, accepted bo
 //@ census [C17] callers acceptTransports : (*Server).ListenAndServe  ## the only producer of the transport queue (ListenAndServe passes srv.transportChan; that call is not under contract)
 //@ census [C17] senders Server.transportChan : none
 
-//@ func (*Server).consumeTransports
+//@ func (*Server).consumeTransports :: (srv, ctx) ()
 //@   props C14 C17
 //@   requires serverConfigOK(srv) && ctx != nil  ## a configuration with its callbacks and option lists set (the defaults of NewServerConfig, or the builder's)
 //@   requires srv.config.Node.Name != "" && srv.config.Node.Domain != "" && srv.config.Node.Instance != ""
